@@ -9,12 +9,6 @@ type nat =
 | O
 | S of nat
 
-(** val option_map : ('a1 -> 'a2) -> 'a1 option -> 'a2 option **)
-
-let option_map f = function
-| Some a -> Some (f a)
-| None -> None
-
 (** val fst : ('a1 * 'a2) -> 'a1 **)
 
 let fst = function
@@ -72,6 +66,18 @@ type z =
 | Z0
 | Zpos of positive
 | Zneg of positive
+
+module Nat =
+ struct
+  (** val min : nat -> nat -> nat **)
+
+  let rec min n0 m =
+    match n0 with
+    | O -> O
+    | S n' -> (match m with
+               | O -> O
+               | S m' -> S (min n' m'))
+ end
 
 module Pos =
  struct
@@ -149,6 +155,20 @@ module Pos =
   | XI n' -> f (iter f (iter f x n') n')
   | XO n' -> iter f (iter f x n') n'
   | XH -> f x
+
+  (** val div2 : positive -> positive **)
+
+  let div2 = function
+  | XI p0 -> p0
+  | XO p0 -> p0
+  | XH -> XH
+
+  (** val div2_up : positive -> positive **)
+
+  let div2_up = function
+  | XI p0 -> succ p0
+  | XO p0 -> p0
+  | XH -> XH
 
   (** val compare_cont : comparison -> positive -> positive -> comparison **)
 
@@ -375,6 +395,11 @@ module Z =
   | Zpos x0 -> Zneg x0
   | Zneg x0 -> Zpos x0
 
+  (** val pred : z -> z **)
+
+  let pred x =
+    add x (Zneg XH)
+
   (** val sub : z -> z -> z **)
 
   let sub m n0 =
@@ -466,6 +491,13 @@ module Z =
                  | Zneg q -> Pos.eqb p q
                  | _ -> false)
 
+  (** val min : z -> z -> z **)
+
+  let min n0 m =
+    match compare n0 m with
+    | Gt -> m
+    | _ -> n0
+
   (** val to_nat : z -> nat **)
 
   let to_nat = function
@@ -536,6 +568,38 @@ module Z =
   let modulo a b =
     let (_, r) = div_eucl a b in r
 
+  (** val odd : z -> bool **)
+
+  let odd = function
+  | Z0 -> false
+  | Zpos p -> (match p with
+               | XO _ -> false
+               | _ -> true)
+  | Zneg p -> (match p with
+               | XO _ -> false
+               | _ -> true)
+
+  (** val div2 : z -> z **)
+
+  let div2 = function
+  | Z0 -> Z0
+  | Zpos p -> (match p with
+               | XH -> Z0
+               | _ -> Zpos (Pos.div2 p))
+  | Zneg p -> Zneg (Pos.div2_up p)
+
+  (** val shiftl : z -> z -> z **)
+
+  let shiftl a = function
+  | Z0 -> a
+  | Zpos p -> Pos.iter (mul (Zpos (XO XH))) a p
+  | Zneg p -> Pos.iter div2 a p
+
+  (** val shiftr : z -> z -> z **)
+
+  let shiftr a n0 =
+    shiftl a (opp n0)
+
   (** val coq_lor : z -> z -> z **)
 
   let coq_lor a b =
@@ -569,7 +633,24 @@ module Z =
        | Zpos b0 -> of_N (N.ldiff (Npos b0) (Pos.pred_N a0))
        | Zneg b0 ->
          Zneg (N.succ_pos (N.coq_lor (Pos.pred_N a0) (Pos.pred_N b0))))
+
+  (** val lnot : z -> z **)
+
+  let lnot a =
+    pred (opp a)
  end
+
+(** val hd : 'a1 -> 'a1 list -> 'a1 **)
+
+let hd default = function
+| [] -> default
+| x :: _ -> x
+
+(** val tl : 'a1 list -> 'a1 list **)
+
+let tl = function
+| [] -> []
+| _ :: m -> m
 
 (** val nth : nat -> 'a1 list -> 'a1 -> 'a1 **)
 
@@ -581,62 +662,6 @@ let rec nth n0 l default =
   | S m -> (match l with
             | [] -> default
             | _ :: t -> nth m t default)
-
-(** val nth_error : 'a1 list -> nat -> 'a1 option **)
-
-let rec nth_error l = function
-| O -> (match l with
-        | [] -> None
-        | x :: _ -> Some x)
-| S n1 -> (match l with
-           | [] -> None
-           | _ :: l0 -> nth_error l0 n1)
-
-(** val last : 'a1 list -> 'a1 -> 'a1 **)
-
-let rec last l d =
-  match l with
-  | [] -> d
-  | a :: l0 -> (match l0 with
-                | [] -> a
-                | _ :: _ -> last l0 d)
-
-(** val rev : 'a1 list -> 'a1 list **)
-
-let rec rev = function
-| [] -> []
-| x :: l' -> app (rev l') (x :: [])
-
-(** val map : ('a1 -> 'a2) -> 'a1 list -> 'a2 list **)
-
-let rec map f = function
-| [] -> []
-| a :: t -> (f a) :: (map f t)
-
-(** val fold_left : ('a1 -> 'a2 -> 'a1) -> 'a2 list -> 'a1 -> 'a1 **)
-
-let rec fold_left f l a0 =
-  match l with
-  | [] -> a0
-  | b :: t -> fold_left f t (f a0 b)
-
-(** val existsb : ('a1 -> bool) -> 'a1 list -> bool **)
-
-let rec existsb f = function
-| [] -> false
-| a :: l0 -> (||) (f a) (existsb f l0)
-
-(** val forallb : ('a1 -> bool) -> 'a1 list -> bool **)
-
-let rec forallb f = function
-| [] -> true
-| a :: l0 -> (&&) (f a) (forallb f l0)
-
-(** val filter : ('a1 -> bool) -> 'a1 list -> 'a1 list **)
-
-let rec filter f = function
-| [] -> []
-| x :: l0 -> if f x then x :: (filter f l0) else filter f l0
 
 (** val firstn : nat -> 'a1 list -> 'a1 list **)
 
@@ -656,1252 +681,971 @@ let rec skipn n0 l =
              | [] -> []
              | _ :: l0 -> skipn n1 l0)
 
-type jval =
-| JNull
-| JBool of bool
-| JI64 of z
-| JF64 of z
-| JStr of z list
-| JArr of jval list
-| JObj of (z list * jval) list
+(** val uw : z -> z -> z **)
 
-(** val bytes_eqb : z list -> z list -> bool **)
+let uw bits x =
+  Z.modulo x (Z.pow (Zpos (XO XH)) bits)
 
-let rec bytes_eqb a b =
-  match a with
-  | [] -> (match b with
-           | [] -> true
-           | _ :: _ -> false)
-  | x :: a' ->
-    (match b with
-     | [] -> false
-     | y :: b' -> (&&) (Z.eqb x y) (bytes_eqb a' b'))
+(** val sw : z -> z -> z **)
 
-(** val jbinn_BINN_LIST : z **)
+let sw bits x =
+  Z.sub
+    (Z.modulo (Z.add x (Z.pow (Zpos (XO XH)) (Z.sub bits (Zpos XH))))
+      (Z.pow (Zpos (XO XH)) bits))
+    (Z.pow (Zpos (XO XH)) (Z.sub bits (Zpos XH)))
 
-let jbinn_BINN_LIST =
-  Zpos (XO (XO (XO (XO (XO (XI (XI XH)))))))
+(** val set_vnum_loop : nat -> z -> z list **)
 
-(** val jbinn_BINN_MAP : z **)
-
-let jbinn_BINN_MAP =
-  Zpos (XI (XO (XO (XO (XO (XI (XI XH)))))))
-
-(** val jbinn_BINN_OBJECT : z **)
-
-let jbinn_BINN_OBJECT =
-  Zpos (XO (XI (XO (XO (XO (XI (XI XH)))))))
-
-(** val jbinn_BINN_NULL : z **)
-
-let jbinn_BINN_NULL =
-  Z0
-
-(** val jbinn_BINN_TRUE : z **)
-
-let jbinn_BINN_TRUE =
-  Zpos XH
-
-(** val jbinn_BINN_FALSE : z **)
-
-let jbinn_BINN_FALSE =
-  Zpos (XO XH)
-
-(** val jbinn_BINN_BOOL : z **)
-
-let jbinn_BINN_BOOL =
-  Zpos (XI (XO (XO (XO (XO (XI (XI (XO (XO (XO (XO (XO (XO (XO (XO (XO (XO
-    (XO (XO XH)))))))))))))))))))
-
-(** val jbinn_BINN_UINT8 : z **)
-
-let jbinn_BINN_UINT8 =
-  Zpos (XO (XO (XO (XO (XO XH)))))
-
-(** val jbinn_BINN_INT8 : z **)
-
-let jbinn_BINN_INT8 =
-  Zpos (XI (XO (XO (XO (XO XH)))))
-
-(** val jbinn_BINN_UINT16 : z **)
-
-let jbinn_BINN_UINT16 =
-  Zpos (XO (XO (XO (XO (XO (XO XH))))))
-
-(** val jbinn_BINN_INT16 : z **)
-
-let jbinn_BINN_INT16 =
-  Zpos (XI (XO (XO (XO (XO (XO XH))))))
-
-(** val jbinn_BINN_UINT32 : z **)
-
-let jbinn_BINN_UINT32 =
-  Zpos (XO (XO (XO (XO (XO (XI XH))))))
-
-(** val jbinn_BINN_INT32 : z **)
-
-let jbinn_BINN_INT32 =
-  Zpos (XI (XO (XO (XO (XO (XI XH))))))
-
-(** val jbinn_BINN_UINT64 : z **)
-
-let jbinn_BINN_UINT64 =
-  Zpos (XO (XO (XO (XO (XO (XO (XO XH)))))))
-
-(** val jbinn_BINN_INT64 : z **)
-
-let jbinn_BINN_INT64 =
-  Zpos (XI (XO (XO (XO (XO (XO (XO XH)))))))
-
-(** val jbinn_BINN_FLOAT32 : z **)
-
-let jbinn_BINN_FLOAT32 =
-  Zpos (XO (XI (XO (XO (XO (XI XH))))))
-
-(** val jbinn_BINN_FLOAT64 : z **)
-
-let jbinn_BINN_FLOAT64 =
-  Zpos (XO (XI (XO (XO (XO (XO (XO XH)))))))
-
-(** val jbinn_BINN_DOUBLE : z **)
-
-let jbinn_BINN_DOUBLE =
-  Zpos (XO (XI (XO (XO (XO (XO (XO XH)))))))
-
-(** val jbinn_BINN_STRING : z **)
-
-let jbinn_BINN_STRING =
-  Zpos (XO (XO (XO (XO (XO (XI (XO XH)))))))
-
-(** val jbinn_STORAGE_NOBYTES : z **)
-
-let jbinn_STORAGE_NOBYTES =
-  Z0
-
-(** val jbinn_STORAGE_BYTE : z **)
-
-let jbinn_STORAGE_BYTE =
-  Zpos (XO (XO (XO (XO (XO XH)))))
-
-(** val jbinn_STORAGE_WORD : z **)
-
-let jbinn_STORAGE_WORD =
-  Zpos (XO (XO (XO (XO (XO (XO XH))))))
-
-(** val jbinn_STORAGE_DWORD : z **)
-
-let jbinn_STORAGE_DWORD =
-  Zpos (XO (XO (XO (XO (XO (XI XH))))))
-
-(** val jbinn_STORAGE_QWORD : z **)
-
-let jbinn_STORAGE_QWORD =
-  Zpos (XO (XO (XO (XO (XO (XO (XO XH)))))))
-
-(** val jbinn_STORAGE_STRING : z **)
-
-let jbinn_STORAGE_STRING =
-  Zpos (XO (XO (XO (XO (XO (XI (XO XH)))))))
-
-(** val jbinn_STORAGE_BLOB : z **)
-
-let jbinn_STORAGE_BLOB =
-  Zpos (XO (XO (XO (XO (XO (XO (XI XH)))))))
-
-(** val jbinn_STORAGE_CONTAINER : z **)
-
-let jbinn_STORAGE_CONTAINER =
-  Zpos (XO (XO (XO (XO (XO (XI (XI XH)))))))
-
-(** val jbinn_STORAGE_MASK : z **)
-
-let jbinn_STORAGE_MASK =
-  Zpos (XO (XO (XO (XO (XO (XI (XI XH)))))))
-
-(** val jbinn_STORAGE_HAS_MORE : z **)
-
-let jbinn_STORAGE_HAS_MORE =
-  Zpos (XO (XO (XO (XO XH))))
-
-(** val jbinn_MIN_BINN_SIZE : z **)
-
-let jbinn_MIN_BINN_SIZE =
-  Zpos (XI XH)
-
-(** val jbinn_MAX_BIN_KEY_LEN : z **)
-
-let jbinn_MAX_BIN_KEY_LEN =
-  Zpos (XI (XI (XI (XI (XI (XI (XI XH)))))))
-
-(** val jbinn_JBL_MAX_NESTING_LEVEL : z **)
-
-let jbinn_JBL_MAX_NESTING_LEVEL =
-  Zpos (XI (XI (XI (XO (XO (XI (XI (XI (XI XH)))))))))
-
-(** val jbinn_sizeof_int : z **)
-
-let jbinn_sizeof_int =
-  Zpos (XO (XO XH))
-
-(** val jbinn_UINT8_MAX : z **)
-
-let jbinn_UINT8_MAX =
-  Zpos (XI (XI (XI (XI (XI (XI (XI XH)))))))
-
-(** val jbinn_UINT16_MAX : z **)
-
-let jbinn_UINT16_MAX =
-  Zpos (XI (XI (XI (XI (XI (XI (XI (XI (XI (XI (XI (XI (XI (XI (XI
-    XH)))))))))))))))
-
-(** val jbinn_UINT32_MAX : z **)
-
-let jbinn_UINT32_MAX =
-  Zpos (XI (XI (XI (XI (XI (XI (XI (XI (XI (XI (XI (XI (XI (XI (XI (XI (XI
-    (XI (XI (XI (XI (XI (XI (XI (XI (XI (XI (XI (XI (XI (XI
-    XH)))))))))))))))))))))))))))))))
-
-(** val jbinn_INT8_MIN : z **)
-
-let jbinn_INT8_MIN =
-  Zneg (XO (XO (XO (XO (XO (XO (XO XH)))))))
-
-(** val jbinn_INT16_MIN : z **)
-
-let jbinn_INT16_MIN =
-  Zneg (XO (XO (XO (XO (XO (XO (XO (XO (XO (XO (XO (XO (XO (XO (XO
-    XH)))))))))))))))
-
-(** val jbinn_INT32_MIN : z **)
-
-let jbinn_INT32_MIN =
-  Zneg (XO (XO (XO (XO (XO (XO (XO (XO (XO (XO (XO (XO (XO (XO (XO (XO (XO
-    (XO (XO (XO (XO (XO (XO (XO (XO (XO (XO (XO (XO (XO (XO
-    XH)))))))))))))))))))))))))))))))
-
-(** val jbinn_STRING_KEEPS_NUL : z **)
-
-let jbinn_STRING_KEEPS_NUL =
-  Zpos XH
-
-(** val be_bytes : nat -> z -> z list **)
-
-let rec be_bytes n0 v =
-  match n0 with
-  | O -> []
-  | S k ->
-    (Z.modulo
-      (Z.div v
-        (Z.pow (Zpos (XO XH)) (Z.mul (Zpos (XO (XO (XO XH)))) (Z.of_nat k))))
-      (Zpos (XO (XO (XO (XO (XO (XO (XO (XO XH)))))))))) :: (be_bytes k v)
-
-(** val be_val : nat -> z list -> z option **)
-
-let rec be_val n0 bs =
-  match n0 with
-  | O -> Some Z0
-  | S k ->
-    (match bs with
-     | [] -> None
-     | b :: r ->
-       (match be_val k r with
-        | Some v ->
-          Some
-            (Z.add
-              (Z.mul b
-                (Z.pow (Zpos (XO XH))
-                  (Z.mul (Zpos (XO (XO (XO XH)))) (Z.of_nat k)))) v)
-        | None -> None))
-
-(** val cstr : z list -> z list **)
-
-let rec cstr = function
-| [] -> []
-| c :: r -> if Z.eqb c Z0 then [] else c :: (cstr r)
-
-(** val zlen : 'a1 list -> z **)
-
-let zlen l =
-  Z.of_nat (length l)
-
-(** val zskip : z -> 'a1 list -> 'a1 list **)
-
-let zskip n0 l =
-  skipn (Z.to_nat n0) l
-
-(** val zfirst : z -> 'a1 list -> 'a1 list **)
-
-let zfirst n0 l =
-  firstn (Z.to_nat n0) l
-
-(** val tolower : z -> z **)
-
-let tolower c =
-  if (&&) (Z.leb (Zpos (XI (XO (XO (XO (XO (XO XH))))))) c)
-       (Z.leb c (Zpos (XO (XI (XO (XI (XI (XO XH))))))))
-  then Z.add c (Zpos (XO (XO (XO (XO (XO XH))))))
-  else c
-
-(** val strnieq : z list -> z list -> nat -> bool **)
-
-let rec strnieq a b = function
-| O -> true
-| S k ->
-  (match a with
-   | [] -> false
-   | x :: a' ->
-     (match b with
-      | [] -> false
-      | y :: b' ->
-        if Z.eqb (tolower x) (tolower y)
-        then if Z.eqb x Z0 then true else strnieq a' b' k
-        else false))
-
-(** val rd_field : z list -> (z * z) option **)
-
-let rd_field p = match p with
-| [] -> None
-| b :: _ ->
-  if negb
-       (Z.eqb (Z.coq_land b (Zpos (XO (XO (XO (XO (XO (XO (XO XH))))))))) Z0)
-  then (match be_val (S (S (S (S O)))) p with
-        | Some v ->
-          Some
-            ((Z.coq_land v (Zpos (XI (XI (XI (XI (XI (XI (XI (XI (XI (XI (XI
-               (XI (XI (XI (XI (XI (XI (XI (XI (XI (XI (XI (XI (XI (XI (XI
-               (XI (XI (XI (XI XH)))))))))))))))))))))))))))))))), (Zpos (XO
-            (XO XH))))
-        | None -> None)
-  else Some (b, (Zpos XH))
-
-(** val read_hdr : z list -> (((z * z) * z) * z) option **)
-
-let read_hdr = function
-| [] -> None
-| byte :: p1 ->
-  if negb (Z.eqb (Z.coq_land byte jbinn_STORAGE_MASK) jbinn_STORAGE_CONTAINER)
-  then None
-  else if negb (Z.eqb (Z.coq_land byte jbinn_STORAGE_HAS_MORE) Z0)
-       then None
-       else if negb
-                 ((||)
-                   ((||) (Z.eqb byte jbinn_BINN_LIST)
-                     (Z.eqb byte jbinn_BINN_MAP))
-                   (Z.eqb byte jbinn_BINN_OBJECT))
-            then None
-            else (match rd_field p1 with
-                  | Some p0 ->
-                    let (size, k1) = p0 in
-                    (match rd_field (zskip k1 p1) with
-                     | Some p2 ->
-                       let (count, k2) = p2 in
-                       if Z.ltb size jbinn_MIN_BINN_SIZE
-                       then None
-                       else Some (((byte, size), count),
-                              (Z.add (Z.add (Zpos XH) k1) k2))
-                     | None -> None)
-                  | None -> None)
-
-(** val advance : z list -> z -> (z list * z) option **)
-
-let advance p rem =
-  if Z.leb rem Z0
-  then None
-  else (match p with
-        | [] -> None
-        | byte :: p1 ->
-          let st = Z.coq_land byte jbinn_STORAGE_MASK in
-          let p2 =
-            if negb (Z.eqb (Z.coq_land byte jbinn_STORAGE_HAS_MORE) Z0)
-            then zskip (Zpos XH) p1
-            else p1
-          in
-          let r2 =
-            if negb (Z.eqb (Z.coq_land byte jbinn_STORAGE_HAS_MORE) Z0)
-            then Z.sub rem (Zpos (XO XH))
-            else Z.sub rem (Zpos XH)
-          in
-          let fin = fun k ->
-            if Z.leb (Z.sub r2 k) Z0
-            then None
-            else Some ((zskip k p2), (Z.sub r2 k))
-          in
-          if Z.eqb st jbinn_STORAGE_NOBYTES
-          then fin Z0
-          else if Z.eqb st jbinn_STORAGE_BYTE
-               then fin (Zpos XH)
-               else if Z.eqb st jbinn_STORAGE_WORD
-                    then fin (Zpos (XO XH))
-                    else if Z.eqb st jbinn_STORAGE_DWORD
-                         then fin (Zpos (XO (XO XH)))
-                         else if Z.eqb st jbinn_STORAGE_QWORD
-                              then fin (Zpos (XO (XO (XO XH))))
-                              else if Z.eqb st jbinn_STORAGE_BLOB
-                                   then if Z.leb
-                                             (Z.sub r2
-                                               (Z.sub jbinn_sizeof_int (Zpos
-                                                 XH))) Z0
-                                        then None
-                                        else (match be_val (S (S (S (S O))))
-                                                      p2 with
-                                              | Some dsize ->
-                                                fin
-                                                  (Z.add (Zpos (XO (XO XH)))
-                                                    dsize)
-                                              | None -> None)
-                                   else if Z.eqb st jbinn_STORAGE_CONTAINER
-                                        then if Z.leb r2 Z0
-                                             then None
-                                             else (match p2 with
-                                                   | [] -> None
-                                                   | d :: _ ->
-                                                     if negb
-                                                          (Z.eqb
-                                                            (Z.coq_land d
-                                                              (Zpos (XO (XO
-                                                              (XO (XO (XO (XO
-                                                              (XO XH)))))))))
-                                                            Z0)
-                                                     then if Z.leb
-                                                               (Z.sub r2
-                                                                 (Z.sub
-                                                                   jbinn_sizeof_int
-                                                                   (Zpos XH)))
-                                                               Z0
-                                                          then None
-                                                          else (match 
-                                                                be_val (S (S
-                                                                  (S (S O))))
-                                                                  p2 with
-                                                                | Some v ->
-                                                                  fin
-                                                                    (Z.sub
-                                                                    (Z.coq_land
-                                                                    v (Zpos
-                                                                    (XI (XI
-                                                                    (XI (XI
-                                                                    (XI (XI
-                                                                    (XI (XI
-                                                                    (XI (XI
-                                                                    (XI (XI
-                                                                    (XI (XI
-                                                                    (XI (XI
-                                                                    (XI (XI
-                                                                    (XI (XI
-                                                                    (XI (XI
-                                                                    (XI (XI
-                                                                    (XI (XI
-                                                                    (XI (XI
-                                                                    (XI (XI
-                                                                    XH))))))))))))))))))))))))))))))))
-                                                                    (Zpos XH))
-                                                                | None -> None)
-                                                     else fin
-                                                            (Z.sub d (Zpos
-                                                              XH)))
-                                        else if Z.eqb st jbinn_STORAGE_STRING
-                                             then if Z.leb r2 Z0
-                                                  then None
-                                                  else (match p2 with
-                                                        | [] -> None
-                                                        | d :: _ ->
-                                                          if negb
-                                                               (Z.eqb
-                                                                 (Z.coq_land
-                                                                   d (Zpos
-                                                                   (XO (XO
-                                                                   (XO (XO
-                                                                   (XO (XO
-                                                                   (XO
-                                                                   XH)))))))))
-                                                                 Z0)
-                                                          then if Z.leb
-                                                                    (Z.sub r2
-                                                                    (Z.sub
-                                                                    jbinn_sizeof_int
-                                                                    (Zpos XH)))
-                                                                    Z0
-                                                               then None
-                                                               else (match 
-                                                                    be_val (S
-                                                                    (S (S (S
-                                                                    O)))) p2 with
-                                                                    | Some v ->
-                                                                    fin
-                                                                    (Z.add
-                                                                    (Z.add
-                                                                    (Zpos (XO
-                                                                    (XO XH)))
-                                                                    (Z.coq_land
-                                                                    v (Zpos
-                                                                    (XI (XI
-                                                                    (XI (XI
-                                                                    (XI (XI
-                                                                    (XI (XI
-                                                                    (XI (XI
-                                                                    (XI (XI
-                                                                    (XI (XI
-                                                                    (XI (XI
-                                                                    (XI (XI
-                                                                    (XI (XI
-                                                                    (XI (XI
-                                                                    (XI (XI
-                                                                    (XI (XI
-                                                                    (XI (XI
-                                                                    (XI (XI
-                                                                    XH)))))))))))))))))))))))))))))))))
-                                                                    (Zpos XH))
-                                                                    | None ->
-                                                                    None)
-                                                          else fin
-                                                                 (Z.add
-                                                                   (Z.add
-                                                                    (Zpos XH)
-                                                                    d) (Zpos
-                                                                   XH)))
-                                             else None)
-
-type bval = { bt : z; bnum : z; bsize : z; bcount : z; bptr : z list }
-
-(** val get_value : z list -> bval option **)
-
-let get_value p = match p with
-| [] -> None
-| byte :: p1 ->
-  let st = Z.coq_land byte jbinn_STORAGE_MASK in
-  let more = negb (Z.eqb (Z.coq_land byte jbinn_STORAGE_HAS_MORE) Z0) in
-  if more
-  then (match p1 with
-        | [] -> None
-        | b2 :: p1' ->
-          let p0 =
-            ((Z.add
-               (Z.mul byte (Zpos (XO (XO (XO (XO (XO (XO (XO (XO XH))))))))))
-               b2), p1')
-          in
-          let (ty, q) = p0 in
-          let conv = fun b ->
-            if Z.eqb b.bt jbinn_BINN_TRUE
-            then Some { bt = jbinn_BINN_BOOL; bnum = (Zpos XH); bsize =
-                   b.bsize; bcount = b.bcount; bptr = [] }
-            else if Z.eqb b.bt jbinn_BINN_FALSE
-                 then Some { bt = jbinn_BINN_BOOL; bnum = Z0; bsize =
-                        b.bsize; bcount = b.bcount; bptr = [] }
-                 else Some b
-          in
-          let num = fun k ->
-            match be_val k q with
-            | Some v ->
-              conv { bt = ty; bnum = v; bsize = Z0; bcount = Z0; bptr = [] }
-            | None -> None
-          in
-          if Z.eqb st jbinn_STORAGE_NOBYTES
-          then conv { bt = ty; bnum = Z0; bsize = Z0; bcount = Z0; bptr = [] }
-          else if Z.eqb st jbinn_STORAGE_BYTE
-               then num (S O)
-               else if Z.eqb st jbinn_STORAGE_WORD
-                    then num (S (S O))
-                    else if Z.eqb st jbinn_STORAGE_DWORD
-                         then num (S (S (S (S O))))
-                         else if Z.eqb st jbinn_STORAGE_QWORD
-                              then num (S (S (S (S (S (S (S (S O))))))))
-                              else if Z.eqb st jbinn_STORAGE_BLOB
-                                   then (match be_val (S (S (S (S O)))) q with
-                                         | Some v ->
-                                           conv { bt = ty; bnum = Z0; bsize =
-                                             v; bcount = Z0; bptr =
-                                             (zskip (Zpos (XO (XO XH))) q) }
-                                         | None -> None)
-                                   else if Z.eqb st jbinn_STORAGE_CONTAINER
-                                        then (match read_hdr p with
-                                              | Some p2 ->
-                                                let (p3, _) = p2 in
-                                                let (p4, count) = p3 in
-                                                let (_, size) = p4 in
-                                                conv { bt = ty; bnum = Z0;
-                                                  bsize = size; bcount =
-                                                  count; bptr = p }
-                                              | None -> None)
-                                        else if Z.eqb st jbinn_STORAGE_STRING
-                                             then (match rd_field q with
-                                                   | Some p2 ->
-                                                     let (dsz, k) = p2 in
-                                                     conv { bt = ty; bnum =
-                                                       Z0; bsize = dsz;
-                                                       bcount = Z0; bptr =
-                                                       (zskip k q) }
-                                                   | None -> None)
-                                             else None)
-  else let p0 = (byte, p1) in
-       let (ty, q) = p0 in
-       let conv = fun b ->
-         if Z.eqb b.bt jbinn_BINN_TRUE
-         then Some { bt = jbinn_BINN_BOOL; bnum = (Zpos XH); bsize = b.bsize;
-                bcount = b.bcount; bptr = [] }
-         else if Z.eqb b.bt jbinn_BINN_FALSE
-              then Some { bt = jbinn_BINN_BOOL; bnum = Z0; bsize = b.bsize;
-                     bcount = b.bcount; bptr = [] }
-              else Some b
-       in
-       let num = fun k ->
-         match be_val k q with
-         | Some v ->
-           conv { bt = ty; bnum = v; bsize = Z0; bcount = Z0; bptr = [] }
-         | None -> None
-       in
-       if Z.eqb st jbinn_STORAGE_NOBYTES
-       then conv { bt = ty; bnum = Z0; bsize = Z0; bcount = Z0; bptr = [] }
-       else if Z.eqb st jbinn_STORAGE_BYTE
-            then num (S O)
-            else if Z.eqb st jbinn_STORAGE_WORD
-                 then num (S (S O))
-                 else if Z.eqb st jbinn_STORAGE_DWORD
-                      then num (S (S (S (S O))))
-                      else if Z.eqb st jbinn_STORAGE_QWORD
-                           then num (S (S (S (S (S (S (S (S O))))))))
-                           else if Z.eqb st jbinn_STORAGE_BLOB
-                                then (match be_val (S (S (S (S O)))) q with
-                                      | Some v ->
-                                        conv { bt = ty; bnum = Z0; bsize = v;
-                                          bcount = Z0; bptr =
-                                          (zskip (Zpos (XO (XO XH))) q) }
-                                      | None -> None)
-                                else if Z.eqb st jbinn_STORAGE_CONTAINER
-                                     then (match read_hdr p with
-                                           | Some p2 ->
-                                             let (p3, _) = p2 in
-                                             let (p4, count) = p3 in
-                                             let (_, size) = p4 in
-                                             conv { bt = ty; bnum = Z0;
-                                               bsize = size; bcount = count;
-                                               bptr = p }
-                                           | None -> None)
-                                     else if Z.eqb st jbinn_STORAGE_STRING
-                                          then (match rd_field q with
-                                                | Some p2 ->
-                                                  let (dsz, k) = p2 in
-                                                  conv { bt = ty; bnum = Z0;
-                                                    bsize = dsz; bcount = Z0;
-                                                    bptr = (zskip k q) }
-                                                | None -> None)
-                                          else None
-
-type biter = { it_p : (z list * z) option; it_cur : z; it_cnt : z; it_type : z }
-
-(** val iter_init : z list -> z -> biter option **)
-
-let iter_init ptr expected =
-  match read_hdr ptr with
-  | Some p ->
-    let (p0, hs) = p in
-    let (p1, count) = p0 in
-    let (ty, size) = p1 in
-    if negb (Z.eqb ty expected)
-    then None
-    else Some { it_p = (Some ((zskip hs ptr), (Z.sub size hs))); it_cur = Z0;
-           it_cnt = count; it_type = ty }
-  | None -> None
-
-(** val list_next : biter -> (bval * biter) option **)
-
-let list_next it =
-  match it.it_p with
-  | Some p0 ->
-    let (p, rem) = p0 in
-    if (||) ((||) (Z.leb rem Z0) (Z.gtb it.it_cur it.it_cnt))
-         (negb (Z.eqb it.it_type jbinn_BINN_LIST))
-    then None
-    else let cur = Z.add it.it_cur (Zpos XH) in
-         if Z.gtb cur it.it_cnt
-         then None
-         else (match get_value p with
-               | Some b ->
-                 Some (b, { it_p = (advance p rem); it_cur = cur; it_cnt =
-                   it.it_cnt; it_type = it.it_type })
-               | None -> None)
-  | None -> None
-
-(** val object_next : biter -> ((z list * bval) * biter) option **)
-
-let object_next it =
-  match it.it_p with
-  | Some p0 ->
-    let (p, rem) = p0 in
-    if (||) ((||) (Z.leb rem Z0) (Z.gtb it.it_cur it.it_cnt))
-         (negb (Z.eqb it.it_type jbinn_BINN_OBJECT))
-    then None
-    else let cur = Z.add it.it_cur (Zpos XH) in
-         if Z.gtb cur it.it_cnt
-         then None
-         else (match p with
-               | [] -> None
-               | len :: p1 ->
-                 let key = zfirst len p1 in
-                 let p2 = zskip len p1 in
-                 let r2 = Z.sub (Z.sub rem (Zpos XH)) len in
-                 if Z.leb r2 Z0
-                 then None
-                 else (match get_value p2 with
-                       | Some b ->
-                         Some ((key, b), { it_p = (advance p2 r2); it_cur =
-                           cur; it_cnt = it.it_cnt; it_type = it.it_type })
-                       | None -> None))
-  | None -> None
-
-(** val list_items : nat -> biter -> bval list **)
-
-let rec list_items n0 it =
-  match n0 with
-  | O -> []
-  | S k ->
-    (match list_next it with
-     | Some p -> let (b, it') = p in b :: (list_items k it')
-     | None -> [])
-
-(** val obj_items : nat -> biter -> (z list * bval) list **)
-
-let rec obj_items n0 it =
-  match n0 with
-  | O -> []
-  | S k ->
-    (match object_next it with
-     | Some p -> let (p0, it') = p in p0 :: (obj_items k it')
-     | None -> [])
-
-(** val iter_fuel : biter -> nat **)
-
-let iter_fuel it =
-  S (Z.to_nat it.it_cnt)
-
-(** val sx : z -> z -> z **)
-
-let sx bits v =
-  let m = Z.modulo v (Z.pow (Zpos (XO XH)) bits) in
-  if Z.geb m (Z.pow (Zpos (XO XH)) (Z.sub bits (Zpos XH)))
-  then Z.sub m (Z.pow (Zpos (XO XH)) bits)
-  else m
-
-(** val create_scalar : bval -> jval option **)
-
-let create_scalar b =
-  let t = b.bt in
-  if Z.eqb t jbinn_BINN_NULL
-  then Some JNull
-  else if Z.eqb t jbinn_BINN_STRING
-       then Some (JStr (zfirst b.bsize b.bptr))
-       else if Z.eqb t jbinn_BINN_TRUE
-            then Some (JBool true)
-            else if Z.eqb t jbinn_BINN_FALSE
-                 then Some (JBool false)
-                 else if Z.eqb t jbinn_BINN_BOOL
-                      then Some (JBool
-                             (negb
-                               (Z.eqb
-                                 (Z.modulo b.bnum
-                                   (Z.pow (Zpos (XO XH)) (Zpos (XO (XO (XO
-                                     (XO (XO XH)))))))) Z0)))
-                      else if Z.eqb t jbinn_BINN_UINT8
-                           then Some (JI64
-                                  (Z.modulo b.bnum
-                                    (Z.pow (Zpos (XO XH)) (Zpos (XO (XO (XO
-                                      XH)))))))
-                           else if Z.eqb t jbinn_BINN_UINT16
-                                then Some (JI64
-                                       (Z.modulo b.bnum
-                                         (Z.pow (Zpos (XO XH)) (Zpos (XO (XO
-                                           (XO (XO XH))))))))
-                                else if Z.eqb t jbinn_BINN_UINT32
-                                     then Some (JI64
-                                            (Z.modulo b.bnum
-                                              (Z.pow (Zpos (XO XH)) (Zpos (XO
-                                                (XO (XO (XO (XO XH)))))))))
-                                     else if Z.eqb t jbinn_BINN_UINT64
-                                          then Some (JI64
-                                                 (sx (Zpos (XO (XO (XO (XO
-                                                   (XO (XO XH))))))) b.bnum))
-                                          else if Z.eqb t jbinn_BINN_INT8
-                                               then Some (JI64
-                                                      (sx (Zpos (XO (XO (XO
-                                                        XH)))) b.bnum))
-                                               else if Z.eqb t
-                                                         jbinn_BINN_INT16
-                                                    then Some (JI64
-                                                           (sx (Zpos (XO (XO
-                                                             (XO (XO XH)))))
-                                                             b.bnum))
-                                                    else if Z.eqb t
-                                                              jbinn_BINN_INT32
-                                                         then Some (JI64
-                                                                (sx (Zpos (XO
-                                                                  (XO (XO (XO
-                                                                  (XO
-                                                                  XH))))))
-                                                                  b.bnum))
-                                                         else if Z.eqb t
-                                                                   jbinn_BINN_INT64
-                                                              then Some (JI64
-                                                                    (sx (Zpos
-                                                                    (XO (XO
-                                                                    (XO (XO
-                                                                    (XO (XO
-                                                                    XH)))))))
-                                                                    b.bnum))
-                                                              else if 
-                                                                    (||)
-                                                                    (Z.eqb t
-                                                                    jbinn_BINN_FLOAT32)
-                                                                    (Z.eqb t
-                                                                    jbinn_BINN_FLOAT64)
-                                                                   then 
-                                                                    Some
-                                                                    (JF64
-                                                                    b.bnum)
-                                                                   else None
-
-(** val dec_node : nat -> bval -> jval option **)
-
-let rec dec_node fuel b =
+let rec set_vnum_loop fuel num =
   match fuel with
-  | O -> None
+  | O -> []
   | S f ->
-    if Z.eqb b.bt jbinn_BINN_OBJECT
-    then (match iter_init b.bptr jbinn_BINN_OBJECT with
-          | Some it ->
-            (match let rec go = function
-                   | [] -> Some []
-                   | p :: r ->
-                     let (k, x) = p in
-                     (match dec_node f x with
-                      | Some v ->
-                        (match go r with
-                         | Some vs -> Some ((k, v) :: vs)
-                         | None -> None)
-                      | None -> None)
-                   in go (obj_items (iter_fuel it) it) with
-             | Some ms -> Some (JObj ms)
-             | None -> None)
-          | None -> None)
-    else if Z.eqb b.bt jbinn_BINN_MAP
-         then None
-         else if Z.eqb b.bt jbinn_BINN_LIST
-              then (match iter_init b.bptr jbinn_BINN_LIST with
-                    | Some it ->
-                      (match let rec go = function
-                             | [] -> Some []
-                             | x :: r ->
-                               (match dec_node f x with
-                                | Some v ->
-                                  (match go r with
-                                   | Some vs -> Some (v :: vs)
-                                   | None -> None)
-                                | None -> None)
-                             in go (list_items (iter_fuel it) it) with
-                       | Some vs -> Some (JArr vs)
-                       | None -> None)
-                    | None -> None)
-              else create_scalar b
+    if Z.leb num Z0
+    then []
+    else let rem = Z.modulo num (Zpos (XO (XO (XO (XO (XO (XO (XO XH))))))))
+         in
+         let num' = Z.div num (Zpos (XO (XO (XO (XO (XO (XO (XO XH)))))))) in
+         if Z.ltb Z0 num'
+         then (Z.sub (Zpos (XI (XI (XI (XI (XI (XI (XI XH)))))))) rem) :: 
+                (set_vnum_loop f num')
+         else rem :: []
 
-(** val root_bval : z list -> bval option **)
+(** val set_vnum64 : z -> z list **)
 
-let root_bval bs =
-  if Z.ltb (zlen bs) jbinn_MIN_BINN_SIZE
-  then None
-  else (match read_hdr bs with
-        | Some p ->
-          let (p0, _) = p in
-          let (p1, count) = p0 in
-          let (ty, size) = p1 in
-          if Z.gtb size (zlen bs)
-          then None
-          else Some { bt = ty; bnum = Z0; bsize = size; bcount = count;
-                 bptr = bs }
-        | None -> None)
+let set_vnum64 v =
+  let num = sw (Zpos (XO (XO (XO (XO (XO (XO XH))))))) v in
+  if Z.eqb num Z0
+  then Z0 :: []
+  else set_vnum_loop (S (S (S (S (S (S (S (S (S (S O)))))))))) num
 
-(** val binn_decode : z list -> jval option **)
+(** val set_vnum32 : z -> z list **)
 
-let binn_decode bs =
-  match root_bval bs with
-  | Some b -> dec_node (S (length bs)) b
-  | None -> None
+let set_vnum32 v =
+  let num = sw (Zpos (XO (XO (XO (XO (XO XH)))))) v in
+  if Z.eqb num Z0 then Z0 :: [] else set_vnum_loop (S (S (S (S (S O))))) num
 
-(** val compress_int : z -> z * nat **)
+(** val read_vnum_loop : z list -> z -> z -> nat -> (z * nat) option **)
 
-let compress_int v =
-  if Z.geb v Z0
-  then if Z.leb v jbinn_UINT8_MAX
-       then (jbinn_BINN_UINT8, (S O))
-       else if Z.leb v jbinn_UINT16_MAX
-            then (jbinn_BINN_UINT16, (S (S O)))
-            else if Z.leb v jbinn_UINT32_MAX
-                 then (jbinn_BINN_UINT32, (S (S (S (S O)))))
-                 else (jbinn_BINN_INT64, (S (S (S (S (S (S (S (S O)))))))))
-  else if Z.geb v jbinn_INT8_MIN
-       then (jbinn_BINN_INT8, (S O))
-       else if Z.geb v jbinn_INT16_MIN
-            then (jbinn_BINN_INT16, (S (S O)))
-            else if Z.geb v jbinn_INT32_MIN
-                 then (jbinn_BINN_INT32, (S (S (S (S O)))))
-                 else (jbinn_BINN_INT64, (S (S (S (S (S (S (S (S O)))))))))
+let rec read_vnum_loop buf base acc i =
+  match buf with
+  | [] -> None
+  | b :: rest ->
+    if Z.ltb b (Zpos (XO (XO (XO (XO (XO (XO (XO XH))))))))
+    then Some ((Z.add acc (Z.mul base b)), (S i))
+    else read_vnum_loop rest
+           (Z.mul base (Zpos (XO (XO (XO (XO (XO (XO (XO XH)))))))))
+           (Z.add acc
+             (Z.mul base
+               (Z.sub (Zpos (XI (XI (XI (XI (XI (XI (XI XH)))))))) b))) (S i)
 
-(** val wr_field : z -> z list **)
+(** val read_vnum : z list -> (z * nat) option **)
 
-let wr_field n0 =
-  if Z.gtb n0 (Zpos (XI (XI (XI (XI (XI (XI XH)))))))
-  then be_bytes (S (S (S (S O))))
-         (Z.coq_lor n0 (Zpos (XO (XO (XO (XO (XO (XO (XO (XO (XO (XO (XO (XO
-           (XO (XO (XO (XO (XO (XO (XO (XO (XO (XO (XO (XO (XO (XO (XO (XO
-           (XO (XO (XO XH)))))))))))))))))))))))))))))))))
-  else n0 :: []
+let read_vnum buf =
+  read_vnum_loop buf (Zpos XH) Z0 O
 
-(** val save_header : z -> z list -> z -> z list option **)
+(** val iWNUMBUF_SIZE : z **)
 
-let save_header ty body count =
-  let size0 = Z.add (zlen body) jbinn_MIN_BINN_SIZE in
-  let size1 =
-    if Z.gtb count (Zpos (XI (XI (XI (XI (XI (XI XH)))))))
-    then Z.add size0 (Zpos (XI XH))
-    else size0
-  in
-  let size2 =
-    if Z.gtb size1 (Zpos (XI (XI (XI (XI (XI (XI XH)))))))
-    then Z.add size1 (Zpos (XI XH))
-    else size1
-  in
-  if Z.gtb size2 (Zpos (XI (XI (XI (XI (XI (XI (XI (XI (XI (XI (XI (XI (XI
-       (XI (XI (XI (XI (XI (XI (XI (XI (XI (XI (XI (XI (XI (XI (XI (XI (XI
-       XH)))))))))))))))))))))))))))))))
-  then None
-  else Some (ty :: (app (wr_field size2) (app (wr_field count) body)))
+let iWNUMBUF_SIZE =
+  Zpos (XO (XO (XO (XO (XO XH)))))
 
-(** val search_key : nat -> z list -> z -> z list -> bool **)
+(** val ascii2hex_tbl : z list **)
 
-let rec search_key n0 p rem key =
-  match n0 with
-  | O -> false
-  | S k ->
-    (match p with
-     | [] -> false
-     | len :: p1 ->
-       let r1 = Z.sub rem (Zpos XH) in
-       if Z.leb r1 Z0
-       then false
-       else let next = fun q r ->
-              match advance q r with
-              | Some p0 -> let (q', r') = p0 in search_key k q' r' key
-              | None -> false
-            in
-            if Z.gtb len Z0
-            then if (&&) (strnieq p1 (app key (Z0 :: [])) (Z.to_nat len))
-                      (Z.eqb (zlen key) len)
-                 then true
-                 else if Z.leb (Z.sub r1 len) Z0
-                      then false
-                      else next (zskip len p1) (Z.sub r1 len)
-            else if Z.eqb len (zlen key) then true else next p1 r1)
+let ascii2hex_tbl =
+  Z0 :: (Z0 :: (Z0 :: (Z0 :: (Z0 :: (Z0 :: (Z0 :: (Z0 :: (Z0 :: (Z0 :: (Z0 :: (Z0 :: (Z0 :: (Z0 :: (Z0 :: (Z0 :: (Z0 :: (Z0 :: (Z0 :: (Z0 :: (Z0 :: (Z0 :: (Z0 :: (Z0 :: (Z0 :: (Z0 :: (Z0 :: (Z0 :: (Z0 :: (Z0 :: (Z0 :: (Z0 :: (Z0 :: (Z0 :: (Z0 :: (Z0 :: (Z0 :: (Z0 :: (Z0 :: (Z0 :: (Z0 :: (Z0 :: (Z0 :: (Z0 :: (Z0 :: (Z0 :: (Z0 :: (Z0 :: (Z0 :: ((Zpos
+    XH) :: ((Zpos (XO XH)) :: ((Zpos (XI XH)) :: ((Zpos (XO (XO
+    XH))) :: ((Zpos (XI (XO XH))) :: ((Zpos (XO (XI XH))) :: ((Zpos (XI (XI
+    XH))) :: ((Zpos (XO (XO (XO XH)))) :: ((Zpos (XI (XO (XO
+    XH)))) :: (Z0 :: (Z0 :: (Z0 :: (Z0 :: (Z0 :: (Z0 :: (Z0 :: ((Zpos (XO (XI
+    (XO XH)))) :: ((Zpos (XI (XI (XO XH)))) :: ((Zpos (XO (XO (XI
+    XH)))) :: ((Zpos (XI (XO (XI XH)))) :: ((Zpos (XO (XI (XI
+    XH)))) :: ((Zpos (XI (XI (XI
+    XH)))) :: (Z0 :: (Z0 :: (Z0 :: (Z0 :: (Z0 :: (Z0 :: (Z0 :: (Z0 :: (Z0 :: (Z0 :: (Z0 :: (Z0 :: (Z0 :: (Z0 :: (Z0 :: (Z0 :: (Z0 :: (Z0 :: (Z0 :: (Z0 :: (Z0 :: (Z0 :: (Z0 :: (Z0 :: (Z0 :: (Z0 :: ((Zpos
+    (XO (XI (XO XH)))) :: ((Zpos (XI (XI (XO XH)))) :: ((Zpos (XO (XO (XI
+    XH)))) :: ((Zpos (XI (XO (XI XH)))) :: ((Zpos (XO (XI (XI
+    XH)))) :: ((Zpos (XI (XI (XI
+    XH)))) :: (Z0 :: (Z0 :: (Z0 :: (Z0 :: (Z0 :: (Z0 :: (Z0 :: (Z0 :: (Z0 :: (Z0 :: (Z0 :: (Z0 :: (Z0 :: (Z0 :: (Z0 :: (Z0 :: (Z0 :: (Z0 :: (Z0 :: (Z0 :: (Z0 :: (Z0 :: (Z0 :: (Z0 :: (Z0 :: (Z0 :: (Z0 :: (Z0 :: (Z0 :: (Z0 :: (Z0 :: (Z0 :: (Z0 :: (Z0 :: (Z0 :: (Z0 :: (Z0 :: (Z0 :: (Z0 :: (Z0 :: (Z0 :: (Z0 :: (Z0 :: (Z0 :: (Z0 :: (Z0 :: (Z0 :: (Z0 :: (Z0 :: (Z0 :: (Z0 :: (Z0 :: (Z0 :: (Z0 :: (Z0 :: (Z0 :: (Z0 :: (Z0 :: (Z0 :: (Z0 :: (Z0 :: (Z0 :: (Z0 :: (Z0 :: (Z0 :: (Z0 :: (Z0 :: (Z0 :: (Z0 :: (Z0 :: (Z0 :: (Z0 :: (Z0 :: (Z0 :: (Z0 :: (Z0 :: (Z0 :: (Z0 :: (Z0 :: (Z0 :: (Z0 :: (Z0 :: (Z0 :: (Z0 :: (Z0 :: (Z0 :: (Z0 :: (Z0 :: (Z0 :: (Z0 :: (Z0 :: (Z0 :: (Z0 :: (Z0 :: (Z0 :: (Z0 :: (Z0 :: (Z0 :: (Z0 :: (Z0 :: (Z0 :: (Z0 :: (Z0 :: (Z0 :: (Z0 :: (Z0 :: (Z0 :: (Z0 :: (Z0 :: (Z0 :: (Z0 :: (Z0 :: (Z0 :: (Z0 :: (Z0 :: (Z0 :: (Z0 :: (Z0 :: (Z0 :: (Z0 :: (Z0 :: (Z0 :: (Z0 :: (Z0 :: (Z0 :: (Z0 :: (Z0 :: (Z0 :: (Z0 :: (Z0 :: (Z0 :: (Z0 :: (Z0 :: (Z0 :: (Z0 :: (Z0 :: (Z0 :: (Z0 :: (Z0 :: (Z0 :: (Z0 :: (Z0 :: (Z0 :: (Z0 :: (Z0 :: (Z0 :: (Z0 :: (Z0 :: (Z0 :: (Z0 :: (Z0 :: (Z0 :: (Z0 :: [])))))))))))))))))))))))))))))))))))))))))))))))))))))))))))))))))))))))))))))))))))))))))))))))))))))))))))))))))))))))))))))))))))))))))))))))))))))))))))))))))))))))))))))))))))))))))))))))))))))))))))))))))))))))))))))))))))))))))))))))))))))))))))))))
 
-(** val enc_item : jval -> z list option **)
+(** val pREFIX_KEY_LEN_V2 : z **)
 
-let rec enc_item = function
-| JNull -> Some (jbinn_BINN_NULL :: [])
-| JBool b -> Some ((if b then jbinn_BINN_TRUE else jbinn_BINN_FALSE) :: [])
-| JI64 n0 -> let (t, k) = compress_int n0 in Some (t :: (be_bytes k n0))
-| JF64 bits ->
-  Some
-    (jbinn_BINN_DOUBLE :: (be_bytes (S (S (S (S (S (S (S (S O)))))))) bits))
-| JStr s ->
-  let s' = if Z.eqb jbinn_STRING_KEEPS_NUL (Zpos XH) then s else cstr s in
-  Some (jbinn_BINN_STRING :: (app (wr_field (zlen s')) (app s' (Z0 :: []))))
-| JArr items ->
-  (match let rec go l body cnt =
-           match l with
-           | [] -> Some (body, cnt)
-           | x :: r ->
-             (match enc_item x with
-              | Some bx -> go r (app body bx) (Z.add cnt (Zpos XH))
-              | None -> None)
-         in go items [] Z0 with
-   | Some p -> let (body, cnt) = p in save_header jbinn_BINN_LIST body cnt
-   | None -> None)
-| JObj ms ->
-  (match let rec go l body cnt =
-           match l with
-           | [] -> Some (body, cnt)
-           | p :: r ->
-             let (k, x) = p in
-             (match enc_item x with
-              | Some bx ->
-                if Z.gtb (zlen k) jbinn_MAX_BIN_KEY_LEN
-                then None
-                else if search_key (Z.to_nat cnt) body (zlen body) k
-                     then None
-                     else go r (app body ((zlen k) :: (app k bx)))
-                            (Z.add cnt (Zpos XH))
-              | None -> None)
-         in go ms [] Z0 with
-   | Some p -> let (body, cnt) = p in save_header jbinn_BINN_OBJECT body cnt
-   | None -> None)
+let pREFIX_KEY_LEN_V2 =
+  Zpos (XI (XI (XO (XO (XI (XI XH))))))
 
-(** val binn_encode : jval -> z list option **)
+(** val iW_VNUMBUFSZ : z **)
 
-let binn_encode v = match v with
-| JArr _ -> enc_item v
-| JObj _ -> enc_item v
-| _ -> None
+let iW_VNUMBUFSZ =
+  Zpos (XO (XI (XO XH)))
 
-(** val binn_clone : z list -> z list option **)
+(** val iW_VNUMSIZE : z -> z **)
 
-let binn_clone bs =
-  match read_hdr bs with
-  | Some p ->
-    let (p0, hs) = p in
-    let (p1, count) = p0 in
-    let (ty, size) = p1 in
-    let body = firstn (Z.to_nat (Z.sub size hs)) (zskip hs bs) in
-    save_header ty body count
-  | None -> None
+let iW_VNUMSIZE n0 =
+  if Z.eqb
+       (if Z.ltb (uw (Zpos (XO (XO (XO (XO (XO (XO XH))))))) n0) (Zpos (XO
+             (XO (XO (XO (XO (XO (XO XH))))))))
+        then Zpos XH
+        else Z0) Z0
+  then if Z.eqb
+            (if Z.ltb (uw (Zpos (XO (XO (XO (XO (XO (XO XH))))))) n0) (Zpos
+                  (XO (XO (XO (XO (XO (XO (XO (XO (XO (XO (XO (XO (XO (XO
+                  XH)))))))))))))))
+             then Zpos XH
+             else Z0) Z0
+       then if Z.eqb
+                 (if Z.ltb (uw (Zpos (XO (XO (XO (XO (XO (XO XH))))))) n0)
+                       (Zpos (XO (XO (XO (XO (XO (XO (XO (XO (XO (XO (XO (XO
+                       (XO (XO (XO (XO (XO (XO (XO (XO (XO
+                       XH))))))))))))))))))))))
+                  then Zpos XH
+                  else Z0) Z0
+            then if Z.eqb
+                      (if Z.ltb
+                            (uw (Zpos (XO (XO (XO (XO (XO (XO XH))))))) n0)
+                            (Zpos (XO (XO (XO (XO (XO (XO (XO (XO (XO (XO (XO
+                            (XO (XO (XO (XO (XO (XO (XO (XO (XO (XO (XO (XO
+                            (XO (XO (XO (XO (XO
+                            XH)))))))))))))))))))))))))))))
+                       then Zpos XH
+                       else Z0) Z0
+                 then if Z.eqb
+                           (if Z.ltb
+                                 (uw (Zpos (XO (XO (XO (XO (XO (XO XH)))))))
+                                   n0) (Zpos (XO (XO (XO (XO (XO (XO (XO (XO
+                                 (XO (XO (XO (XO (XO (XO (XO (XO (XO (XO (XO
+                                 (XO (XO (XO (XO (XO (XO (XO (XO (XO (XO (XO
+                                 (XO (XO (XO (XO (XO
+                                 XH))))))))))))))))))))))))))))))))))))
+                            then Zpos XH
+                            else Z0) Z0
+                      then if Z.eqb
+                                (if Z.ltb
+                                      (uw (Zpos (XO (XO (XO (XO (XO (XO
+                                        XH))))))) n0) (Zpos (XO (XO (XO (XO
+                                      (XO (XO (XO (XO (XO (XO (XO (XO (XO (XO
+                                      (XO (XO (XO (XO (XO (XO (XO (XO (XO (XO
+                                      (XO (XO (XO (XO (XO (XO (XO (XO (XO (XO
+                                      (XO (XO (XO (XO (XO (XO (XO (XO
+                                      XH)))))))))))))))))))))))))))))))))))))))))))
+                                 then Zpos XH
+                                 else Z0) Z0
+                           then if Z.eqb
+                                     (if Z.ltb
+                                           (uw (Zpos (XO (XO (XO (XO (XO (XO
+                                             XH))))))) n0) (Zpos (XO (XO (XO
+                                           (XO (XO (XO (XO (XO (XO (XO (XO
+                                           (XO (XO (XO (XO (XO (XO (XO (XO
+                                           (XO (XO (XO (XO (XO (XO (XO (XO
+                                           (XO (XO (XO (XO (XO (XO (XO (XO
+                                           (XO (XO (XO (XO (XO (XO (XO (XO
+                                           (XO (XO (XO (XO (XO (XO
+                                           XH))))))))))))))))))))))))))))))))))))))))))))))))))
+                                      then Zpos XH
+                                      else Z0) Z0
+                                then if Z.eqb
+                                          (if Z.ltb
+                                                (uw (Zpos (XO (XO (XO (XO (XO
+                                                  (XO XH))))))) n0) (Zpos (XO
+                                                (XO (XO (XO (XO (XO (XO (XO
+                                                (XO (XO (XO (XO (XO (XO (XO
+                                                (XO (XO (XO (XO (XO (XO (XO
+                                                (XO (XO (XO (XO (XO (XO (XO
+                                                (XO (XO (XO (XO (XO (XO (XO
+                                                (XO (XO (XO (XO (XO (XO (XO
+                                                (XO (XO (XO (XO (XO (XO (XO
+                                                (XO (XO (XO (XO (XO (XO
+                                                XH)))))))))))))))))))))))))))))))))))))))))))))))))))))))))
+                                           then Zpos XH
+                                           else Z0) Z0
+                                     then if Z.eqb
+                                               (if Z.ltb
+                                                     (uw (Zpos (XO (XO (XO
+                                                       (XO (XO (XO XH)))))))
+                                                       n0) (Zpos (XO (XO (XO
+                                                     (XO (XO (XO (XO (XO (XO
+                                                     (XO (XO (XO (XO (XO (XO
+                                                     (XO (XO (XO (XO (XO (XO
+                                                     (XO (XO (XO (XO (XO (XO
+                                                     (XO (XO (XO (XO (XO (XO
+                                                     (XO (XO (XO (XO (XO (XO
+                                                     (XO (XO (XO (XO (XO (XO
+                                                     (XO (XO (XO (XO (XO (XO
+                                                     (XO (XO (XO (XO (XO (XO
+                                                     (XO (XO (XO (XO (XO (XO
+                                                     XH))))))))))))))))))))))))))))))))))))))))))))))))))))))))))))))))
+                                                then Zpos XH
+                                                else Z0) Z0
+                                          then Zpos (XO (XI (XO XH)))
+                                          else Zpos (XI (XO (XO XH)))
+                                     else Zpos (XO (XO (XO XH)))
+                                else Zpos (XI (XI XH))
+                           else Zpos (XO (XI XH))
+                      else Zpos (XI (XO XH))
+                 else Zpos (XO (XO XH))
+            else Zpos (XI XH)
+       else Zpos (XO XH)
+  else Zpos XH
 
-(** val binn_clone_into_pool : z list -> z list option **)
+(** val iW_VNUMSIZE32 : z -> z **)
 
-let binn_clone_into_pool bs =
-  match read_hdr bs with
-  | Some p ->
-    let (p0, _) = p in
-    let (p1, _) = p0 in let (_, size) = p1 in Some (zfirst size bs)
-  | None -> None
+let iW_VNUMSIZE32 n0 =
+  if Z.eqb
+       (if Z.ltb (uw (Zpos (XO (XO (XO (XO (XO (XO XH))))))) n0) (Zpos (XO
+             (XO (XO (XO (XO (XO (XO XH))))))))
+        then Zpos XH
+        else Z0) Z0
+  then if Z.eqb
+            (if Z.ltb (uw (Zpos (XO (XO (XO (XO (XO (XO XH))))))) n0) (Zpos
+                  (XO (XO (XO (XO (XO (XO (XO (XO (XO (XO (XO (XO (XO (XO
+                  XH)))))))))))))))
+             then Zpos XH
+             else Z0) Z0
+       then if Z.eqb
+                 (if Z.ltb (uw (Zpos (XO (XO (XO (XO (XO (XO XH))))))) n0)
+                       (Zpos (XO (XO (XO (XO (XO (XO (XO (XO (XO (XO (XO (XO
+                       (XO (XO (XO (XO (XO (XO (XO (XO (XO
+                       XH))))))))))))))))))))))
+                  then Zpos XH
+                  else Z0) Z0
+            then if Z.eqb
+                      (if Z.ltb
+                            (uw (Zpos (XO (XO (XO (XO (XO (XO XH))))))) n0)
+                            (Zpos (XO (XO (XO (XO (XO (XO (XO (XO (XO (XO (XO
+                            (XO (XO (XO (XO (XO (XO (XO (XO (XO (XO (XO (XO
+                            (XO (XO (XO (XO (XO
+                            XH)))))))))))))))))))))))))))))
+                       then Zpos XH
+                       else Z0) Z0
+                 then Zpos (XI (XO XH))
+                 else Zpos (XO (XO XH))
+            else Zpos (XI XH)
+       else Zpos (XO XH)
+  else Zpos XH
 
-(** val char_ok : z -> bool **)
+(** val iW_RANGES_OVERLAP : z -> z -> z -> z -> z **)
 
-let char_ok c =
-  (&&) (Z.leb (Zpos XH) c)
-    (Z.leb c (Zpos (XI (XI (XI (XI (XI (XI (XI XH)))))))))
+let iW_RANGES_OVERLAP s1 e1 s2 e2 =
+  if Z.eqb
+       (if Z.eqb
+             (if Z.eqb (if Z.gtb e1 s2 then Zpos XH else Z0) Z0
+              then Z0
+              else if Z.eqb (if Z.leb e1 e2 then Zpos XH else Z0) Z0
+                   then Z0
+                   else Zpos XH) Z0
+        then if Z.eqb
+                  (if Z.eqb (if Z.geb s1 s2 then Zpos XH else Z0) Z0
+                   then Z0
+                   else if Z.eqb (if Z.ltb s1 e2 then Zpos XH else Z0) Z0
+                        then Z0
+                        else Zpos XH) Z0
+             then Z0
+             else Zpos XH
+        else Zpos XH) Z0
+  then if Z.eqb
+            (if Z.eqb (if Z.leb s1 s2 then Zpos XH else Z0) Z0
+             then Z0
+             else if Z.eqb (if Z.geb e1 e2 then Zpos XH else Z0) Z0
+                  then Z0
+                  else Zpos XH) Z0
+       then Z0
+       else Zpos XH
+  else Zpos XH
 
-(** val key_ieq : z list -> z list -> bool **)
+(** val iW_ROUNDUP : z -> z -> z **)
 
-let rec key_ieq a b =
-  match a with
-  | [] -> (match b with
-           | [] -> true
-           | _ :: _ -> false)
-  | x :: a' ->
-    (match b with
-     | [] -> false
-     | y :: b' -> (&&) (Z.eqb (tolower x) (tolower y)) (key_ieq a' b'))
+let iW_ROUNDUP x v =
+  Z.coq_land
+    (uw (Zpos (XO (XO (XO (XO (XO (XO XH)))))))
+      (Z.sub (uw (Zpos (XO (XO (XO (XO (XO (XO XH))))))) (Z.add x v))
+        (uw (Zpos (XO (XO (XO (XO (XO (XO XH))))))) (Zpos XH))))
+    (uw (Zpos (XO (XO (XO (XO (XO (XO XH)))))))
+      (Z.lnot
+        (uw (Zpos (XO (XO (XO (XO (XO (XO XH)))))))
+          (Z.sub v (uw (Zpos (XO (XO (XO (XO (XO (XO XH))))))) (Zpos XH))))))
 
-(** val keys_unique : z list list -> bool **)
+(** val iW_ROUNDOWN : z -> z -> z **)
 
-let rec keys_unique = function
-| [] -> true
-| k :: r -> (&&) (negb (existsb (key_ieq k) r)) (keys_unique r)
+let iW_ROUNDOWN x v =
+  uw (Zpos (XO (XO (XO (XO (XO (XO XH)))))))
+    (Z.sub x
+      (Z.coq_land x
+        (uw (Zpos (XO (XO (XO (XO (XO (XO XH)))))))
+          (Z.sub v (uw (Zpos (XO (XO (XO (XO (XO (XO XH))))))) (Zpos XH))))))
 
-(** val wf : jval -> bool **)
+type mem = { m_len : z; m_init : (z -> z); m_wr : (z * z) list }
 
-let rec wf = function
-| JI64 n0 ->
-  (&&)
-    (Z.leb (Z.opp (Z.pow (Zpos (XO XH)) (Zpos (XI (XI (XI (XI (XI XH))))))))
-      n0) (Z.ltb n0 (Z.pow (Zpos (XO XH)) (Zpos (XI (XI (XI (XI (XI XH))))))))
-| JF64 b ->
-  (&&) (Z.leb Z0 b)
-    (Z.ltb b (Z.pow (Zpos (XO XH)) (Zpos (XO (XO (XO (XO (XO (XO XH)))))))))
-| JStr s -> forallb char_ok s
-| JArr items -> forallb wf items
-| JObj ms ->
-  (&&)
-    (forallb (fun m ->
-      (&&)
-        ((&&) (forallb char_ok (fst m))
-          (Z.leb (zlen (fst m)) jbinn_MAX_BIN_KEY_LEN)) (wf (snd m))) ms)
-    (keys_unique (map fst ms))
-| _ -> true
+(** val rd_wr : (z * z) list -> (z -> z) -> z -> z **)
 
-type pres =
-| PErr
-| PUndef
-| POk of z list list
+let rec rd_wr w init i =
+  match w with
+  | [] -> init i
+  | p :: r -> let (j, x) = p in if Z.eqb j i then x else rd_wr r init i
 
-(** val seg_scan : z list -> z list -> (z list * z list) option **)
+(** val inb : mem -> z -> bool **)
 
-let rec seg_scan p acc =
-  match p with
-  | [] -> Some ((rev acc), [])
-  | c :: p1 ->
-    if Z.eqb c (Zpos (XI (XI (XI (XI (XO XH))))))
-    then Some ((rev acc), p)
-    else if Z.eqb c (Zpos (XO (XI (XI (XI (XI (XI XH)))))))
-         then (match p1 with
-               | [] -> None
-               | d :: p2 ->
-                 if Z.eqb d (Zpos (XO (XO (XO (XO (XI XH))))))
-                 then seg_scan p2 ((Zpos (XO (XI (XI (XI (XI (XI
-                        XH))))))) :: acc)
-                 else if Z.eqb d (Zpos (XI (XO (XO (XO (XI XH))))))
-                      then seg_scan p2 ((Zpos (XI (XI (XI (XI (XO
-                             XH)))))) :: acc)
-                      else None)
-         else seg_scan p1 (c :: acc)
+let inb m i =
+  (&&) (Z.leb Z0 i) (Z.ltb i m.m_len)
 
-(** val segs_scan : nat -> z list -> z list list option **)
+(** val rd : mem -> z -> z option **)
 
-let rec segs_scan cnt p =
-  match cnt with
-  | O -> Some []
-  | S k ->
-    (match p with
-     | [] -> Some []
-     | c :: p1 ->
-       if Z.eqb c (Zpos (XI (XI (XI (XI (XO XH))))))
-       then (match seg_scan p1 [] with
-             | Some p0 ->
-               let (s, rest) = p0 in
-               (match segs_scan k rest with
-                | Some ss -> Some (s :: ss)
-                | None -> None)
-             | None -> None)
-       else None)
+let rd m i =
+  if inb m i then Some (rd_wr m.m_wr m.m_init i) else None
 
-(** val count_slash : z list -> nat **)
+(** val wr : mem -> z -> z -> mem option **)
 
-let count_slash p =
-  length (filter (fun c -> Z.eqb c (Zpos (XI (XI (XI (XI (XO XH))))))) p)
-
-(** val ptr_parse3 : z list -> pres **)
-
-let ptr_parse3 path =
-  let p = cstr path in
-  (match p with
-   | [] -> POk []
-   | c :: _ ->
-     if negb (Z.eqb c (Zpos (XI (XI (XI (XI (XO XH)))))))
-     then PErr
-     else if (&&) (Z.gtb (zlen p) (Zpos XH))
-               (Z.eqb (last p Z0) (Zpos (XI (XI (XI (XI (XO XH)))))))
-          then PErr
-          else (match segs_scan (count_slash p) p with
-                | Some ss -> POk ss
-                | None -> PUndef))
-
-(** val rfc_unescape : z list -> z list option **)
-
-let rec rfc_unescape = function
-| [] -> Some []
-| c :: r ->
-  if Z.eqb c (Zpos (XO (XI (XI (XI (XI (XI XH)))))))
-  then (match r with
-        | [] -> None
-        | d :: r' ->
-          if Z.eqb d (Zpos (XO (XO (XO (XO (XI XH))))))
-          then option_map (fun x -> (Zpos (XO (XI (XI (XI (XI (XI
-                 XH))))))) :: x) (rfc_unescape r')
-          else if Z.eqb d (Zpos (XI (XO (XO (XO (XI XH))))))
-               then option_map (fun x -> (Zpos (XI (XI (XI (XI (XO
-                      XH)))))) :: x) (rfc_unescape r')
-               else None)
-  else option_map (fun x -> c :: x) (rfc_unescape r)
-
-(** val split_slash : z list -> z list -> z list list **)
-
-let rec split_slash p cur =
-  match p with
-  | [] -> (rev cur) :: []
-  | c :: r ->
-    if Z.eqb c (Zpos (XI (XI (XI (XI (XO XH))))))
-    then (rev cur) :: (split_slash r [])
-    else split_slash r (c :: cur)
-
-(** val all_some : 'a1 option list -> 'a1 list option **)
-
-let rec all_some = function
-| [] -> Some []
-| o :: r ->
-  (match o with
-   | Some x ->
-     (match all_some r with
-      | Some xs -> Some (x :: xs)
-      | None -> None)
-   | None -> None)
-
-(** val rfc_ptr_parse : z list -> z list list option **)
-
-let rfc_ptr_parse = function
-| [] -> Some []
-| c :: r ->
-  if Z.eqb c (Zpos (XI (XI (XI (XI (XO XH))))))
-  then all_some (map rfc_unescape (split_slash r []))
+let wr m i x =
+  if inb m i
+  then Some { m_len = m.m_len; m_init = m.m_init; m_wr = ((i, x) :: m.m_wr) }
   else None
 
-(** val is_digit : z -> bool **)
+(** val peek : mem -> z -> z **)
 
-let is_digit c =
-  (&&) (Z.leb (Zpos (XO (XO (XO (XO (XI XH)))))) c)
-    (Z.leb c (Zpos (XI (XO (XO (XI (XI XH)))))))
+let peek m i =
+  rd_wr m.m_wr m.m_init i
 
-(** val rfc_index : z list -> z option **)
+(** val shl1 : nat -> mem -> z -> mem option **)
 
-let rfc_index s = match s with
-| [] -> None
-| c :: r ->
-  (match r with
-   | [] ->
-     if is_digit c
-     then Some (Z.sub c (Zpos (XO (XO (XO (XO (XI XH)))))))
-     else None
-   | _ :: _ ->
-     if (&&)
-          ((&&) (Z.leb (Zpos (XI (XO (XO (XO (XI XH)))))) c)
-            (Z.leb c (Zpos (XI (XO (XO (XI (XI XH)))))))) (forallb is_digit r)
-     then Some
-            (fold_left (fun a d ->
-              Z.add (Z.mul a (Zpos (XO (XI (XO XH)))))
-                (Z.sub d (Zpos (XO (XO (XO (XO (XI XH)))))))) s Z0)
-     else None)
-
-(** val find_key : z list -> (z list * jval) list -> jval option **)
-
-let rec find_key k = function
-| [] -> None
-| p :: r -> let (k', x) = p in if bytes_eqb k k' then Some x else find_key k r
-
-(** val rfc6901_at : z list list -> jval -> jval option **)
-
-let rec rfc6901_at segs v =
-  match segs with
-  | [] -> Some v
-  | s :: rest ->
-    (match v with
-     | JArr items ->
-       (match rfc_index s with
-        | Some i ->
-          (match nth_error items (Z.to_nat i) with
-           | Some x -> rfc6901_at rest x
-           | None -> None)
+let rec shl1 n0 m dst =
+  match n0 with
+  | O -> Some m
+  | S k ->
+    (match rd m (Z.add dst (Zpos XH)) with
+     | Some x ->
+       (match wr m dst x with
+        | Some m' -> shl1 k m' (Z.add dst (Zpos XH))
         | None -> None)
-     | JObj ms ->
-       (match find_key s ms with
-        | Some x -> rfc6901_at rest x
+     | None -> None)
+
+(** val itoa_loop :
+    nat -> z -> z -> z -> z -> z -> mem -> ((z * z) * mem) option **)
+
+let rec itoa_loop fuel ptr max ret p v m =
+  match fuel with
+  | O -> Some ((ret, p), m)
+  | S f ->
+    if Z.eqb v Z0
+    then Some ((ret, p), m)
+    else let ret0 = Z.add ret (Zpos XH) in
+         if Z.geb ret0 max
+         then if Z.eqb p ptr
+              then Some ((ret0, p), m)
+              else (match shl1 (Z.to_nat (Z.sub p ptr)) m ptr with
+                    | Some m1 ->
+                      (match wr m1 (Z.sub p (Zpos XH))
+                               (Z.add (Zpos (XO (XO (XO (XO (XI XH))))))
+                                 (Z.modulo v (Zpos (XO (XI (XO XH)))))) with
+                       | Some m2 ->
+                         itoa_loop f ptr max ret0 p
+                           (Z.div v (Zpos (XO (XI (XO XH))))) m2
+                       | None -> None)
+                    | None -> None)
+         else (match wr m p
+                       (Z.add (Zpos (XO (XO (XO (XO (XI XH))))))
+                         (Z.modulo v (Zpos (XO (XI (XO XH)))))) with
+               | Some m2 ->
+                 itoa_loop f ptr max ret0 (Z.add p (Zpos XH))
+                   (Z.div v (Zpos (XO (XI (XO XH))))) m2
+               | None -> None)
+
+(** val rev_loop : nat -> z -> z -> mem -> mem option **)
+
+let rec rev_loop fuel ptr p m =
+  match fuel with
+  | O -> Some m
+  | S f ->
+    if Z.gtb p ptr
+    then let p0 = Z.sub p (Zpos XH) in
+         (match rd m p0 with
+          | Some c ->
+            (match rd m ptr with
+             | Some d ->
+               (match wr m p0 d with
+                | Some m1 ->
+                  (match wr m1 ptr c with
+                   | Some m2 -> rev_loop f (Z.add ptr (Zpos XH)) p0 m2
+                   | None -> None)
+                | None -> None)
+             | None -> None)
+          | None -> None)
+    else Some m
+
+(** val int64_min_text : z list **)
+
+let int64_min_text =
+  (Zpos (XI (XO (XI (XI (XO XH)))))) :: ((Zpos (XI (XO (XO (XI (XI
+    XH)))))) :: ((Zpos (XO (XI (XO (XO (XI XH)))))) :: ((Zpos (XO (XI (XO (XO
+    (XI XH)))))) :: ((Zpos (XI (XI (XO (XO (XI XH)))))) :: ((Zpos (XI (XI (XO
+    (XO (XI XH)))))) :: ((Zpos (XI (XI (XI (XO (XI XH)))))) :: ((Zpos (XO (XI
+    (XO (XO (XI XH)))))) :: ((Zpos (XO (XO (XO (XO (XI XH)))))) :: ((Zpos (XI
+    (XI (XO (XO (XI XH)))))) :: ((Zpos (XO (XI (XI (XO (XI XH)))))) :: ((Zpos
+    (XO (XO (XO (XI (XI XH)))))) :: ((Zpos (XI (XO (XI (XO (XI
+    XH)))))) :: ((Zpos (XO (XO (XI (XO (XI XH)))))) :: ((Zpos (XI (XI (XI (XO
+    (XI XH)))))) :: ((Zpos (XI (XI (XI (XO (XI XH)))))) :: ((Zpos (XI (XO (XI
+    (XO (XI XH)))))) :: ((Zpos (XO (XO (XO (XI (XI XH)))))) :: ((Zpos (XO (XO
+    (XO (XO (XI XH)))))) :: ((Zpos (XO (XO (XO (XI (XI
+    XH)))))) :: [])))))))))))))))))))
+
+(** val wr_list : mem -> z -> z list -> mem option **)
+
+let rec wr_list m i = function
+| [] -> Some m
+| x :: r ->
+  (match wr m i x with
+   | Some m' -> wr_list m' (Z.add i (Zpos XH)) r
+   | None -> None)
+
+(** val itoa_digits : z -> mem -> z -> z -> z -> (z * mem) option **)
+
+let itoa_digits v m0 max ptr ret =
+  match itoa_loop (S (S (S (S (S (S (S (S (S (S (S (S (S (S (S (S (S (S (S (S
+          O)))))))))))))))))))) ptr max ret ptr v m0 with
+  | Some p0 ->
+    let (p1, m1) = p0 in
+    let (ret', p) = p1 in
+    (match rev_loop (S (S (S (S (S (S (S (S (S (S (S (S (S (S (S (S (S (S (S
+             (S O)))))))))))))))))))) ptr p m1 with
+     | Some m2 ->
+       (match wr m2 p Z0 with
+        | Some m3 -> Some (ret', m3)
         | None -> None)
-     | _ -> None)
+     | None -> None)
+  | None -> None
 
-(** val digits_rev : nat -> z -> z list **)
+(** val itoa : z -> mem -> z -> (z * mem) option **)
 
-let rec digits_rev fuel n0 =
+let itoa v m max =
+  if Z.ltb max (Zpos XH)
+  then Some (Z0, m)
+  else if Z.eqb v Z0
+       then if Z.geb (Zpos XH) max
+            then (match wr m Z0 Z0 with
+                  | Some m' -> Some ((Zpos XH), m')
+                  | None -> None)
+            else (match wr m Z0 (Zpos (XO (XO (XO (XO (XI XH)))))) with
+                  | Some m1 ->
+                    (match wr m1 (Zpos XH) Z0 with
+                     | Some m2 -> Some ((Zpos XH), m2)
+                     | None -> None)
+                  | None -> None)
+       else if Z.eqb v
+                 (Z.opp
+                   (Z.pow (Zpos (XO XH)) (Zpos (XI (XI (XI (XI (XI XH))))))))
+            then let n0 =
+                   Z.min (Z.sub max (Zpos XH)) (Zpos (XO (XO (XI (XO XH)))))
+                 in
+                 (match wr_list m Z0 (firstn (Z.to_nat n0) int64_min_text) with
+                  | Some m1 ->
+                    (match wr m1 n0 Z0 with
+                     | Some m2 -> Some ((Zpos (XO (XO (XI (XO XH))))), m2)
+                     | None -> None)
+                  | None -> None)
+            else if Z.ltb v Z0
+                 then if Z.geb (Zpos XH) max
+                      then (match wr m Z0 Z0 with
+                            | Some m' -> Some ((Zpos XH), m')
+                            | None -> None)
+                      else (match wr m Z0 (Zpos (XI (XO (XI (XI (XO XH)))))) with
+                            | Some m0 ->
+                              itoa_digits (Z.opp v) m0 max (Zpos XH) (Zpos XH)
+                            | None -> None)
+                 else itoa_digits v m max Z0 Z0
+
+(** val cstr : nat -> mem -> z -> z list **)
+
+let rec cstr fuel m i =
   match fuel with
   | O -> []
   | S f ->
-    if Z.ltb n0 (Zpos (XO (XI (XO XH))))
-    then (Z.add (Zpos (XO (XO (XO (XO (XI XH)))))) n0) :: []
-    else (Z.add (Zpos (XO (XO (XO (XO (XI XH))))))
-           (Z.modulo n0 (Zpos (XO (XI (XO XH)))))) :: (digits_rev f
-                                                        (Z.div n0 (Zpos (XO
-                                                          (XI (XO XH))))))
+    if inb m i
+    then let c = peek m i in
+         if Z.eqb c Z0 then [] else c :: (cstr f m (Z.add i (Zpos XH)))
+    else []
 
-(** val itoa : z -> z list **)
+(** val skip_ws : z list -> z list **)
 
-let itoa n0 =
-  rev (digits_rev (S (S (S (S (S (S (S (S (S (S (S O))))))))))) n0)
+let rec skip_ws s = match s with
+| [] -> []
+| c :: r ->
+  if (&&) (Z.leb (Zpos XH) c) (Z.leb c (Zpos (XO (XO (XO (XO (XO XH)))))))
+  then skip_ws r
+  else s
 
-(** val star : z list -> bool **)
+(** val atoi_digits : z list -> z -> z **)
 
-let star = function
+let rec atoi_digits s num =
+  match s with
+  | [] -> num
+  | c :: r ->
+    if (||) (Z.ltb c (Zpos (XO (XO (XO (XO (XI XH)))))))
+         (Z.gtb c (Zpos (XI (XO (XO (XI (XI XH)))))))
+    then num
+    else atoi_digits r
+           (sw (Zpos (XO (XO (XO (XO (XO (XO XH)))))))
+             (Z.sub (Z.add (Z.mul num (Zpos (XO (XI (XO XH))))) c) (Zpos (XO
+               (XO (XO (XO (XI XH))))))))
+
+(** val is_inf : z list -> bool **)
+
+let is_inf = function
+| [] -> false
+| z0 :: l ->
+  (match z0 with
+   | Zpos p ->
+     (match p with
+      | XI p0 ->
+        (match p0 with
+         | XO p1 ->
+           (match p1 with
+            | XO p2 ->
+              (match p2 with
+               | XI p3 ->
+                 (match p3 with
+                  | XO p4 ->
+                    (match p4 with
+                     | XI p5 ->
+                       (match p5 with
+                        | XH ->
+                          (match l with
+                           | [] -> false
+                           | z1 :: l0 ->
+                             (match z1 with
+                              | Zpos p6 ->
+                                (match p6 with
+                                 | XO p7 ->
+                                   (match p7 with
+                                    | XI p8 ->
+                                      (match p8 with
+                                       | XI p9 ->
+                                         (match p9 with
+                                          | XI p10 ->
+                                            (match p10 with
+                                             | XO p11 ->
+                                               (match p11 with
+                                                | XI p12 ->
+                                                  (match p12 with
+                                                   | XH ->
+                                                     (match l0 with
+                                                      | [] -> false
+                                                      | z2 :: l1 ->
+                                                        (match z2 with
+                                                         | Zpos p13 ->
+                                                           (match p13 with
+                                                            | XO p14 ->
+                                                              (match p14 with
+                                                               | XI p15 ->
+                                                                 (match p15 with
+                                                                  | XI p16 ->
+                                                                    (match p16 with
+                                                                    | XO p17 ->
+                                                                    (match p17 with
+                                                                    | XO p18 ->
+                                                                    (match p18 with
+                                                                    | XI p19 ->
+                                                                    (match p19 with
+                                                                    | XH ->
+                                                                    (match l1 with
+                                                                    | [] ->
+                                                                    true
+                                                                    | _ :: _ ->
+                                                                    false)
+                                                                    | _ ->
+                                                                    false)
+                                                                    | _ ->
+                                                                    false)
+                                                                    | _ ->
+                                                                    false)
+                                                                    | _ ->
+                                                                    false)
+                                                                  | _ -> false)
+                                                               | _ -> false)
+                                                            | _ -> false)
+                                                         | _ -> false))
+                                                   | _ -> false)
+                                                | _ -> false)
+                                             | _ -> false)
+                                          | _ -> false)
+                                       | _ -> false)
+                                    | _ -> false)
+                                 | _ -> false)
+                              | _ -> false))
+                        | _ -> false)
+                     | _ -> false)
+                  | _ -> false)
+               | _ -> false)
+            | _ -> false)
+         | _ -> false)
+      | _ -> false)
+   | _ -> false)
+
+(** val atoi : z list -> z **)
+
+let atoi s =
+  let s0 = skip_ws s in
+  (match s0 with
+   | [] ->
+     let sign = Zpos XH in
+     if is_inf s0
+     then sw (Zpos (XO (XO (XO (XO (XO (XO XH)))))))
+            (Z.mul
+              (Z.sub
+                (Z.pow (Zpos (XO XH)) (Zpos (XI (XI (XI (XI (XI XH)))))))
+                (Zpos XH)) sign)
+     else sw (Zpos (XO (XO (XO (XO (XO (XO XH)))))))
+            (Z.mul (atoi_digits s0 Z0) sign)
+   | z0 :: r ->
+     (match z0 with
+      | Zpos p ->
+        (match p with
+         | XI p0 ->
+           (match p0 with
+            | XI p1 ->
+              (match p1 with
+               | XO p2 ->
+                 (match p2 with
+                  | XI p3 ->
+                    (match p3 with
+                     | XO p4 ->
+                       (match p4 with
+                        | XH ->
+                          let sign = Zpos XH in
+                          if is_inf r
+                          then sw (Zpos (XO (XO (XO (XO (XO (XO XH)))))))
+                                 (Z.mul
+                                   (Z.sub
+                                     (Z.pow (Zpos (XO XH)) (Zpos (XI (XI (XI
+                                       (XI (XI XH))))))) (Zpos XH)) sign)
+                          else sw (Zpos (XO (XO (XO (XO (XO (XO XH)))))))
+                                 (Z.mul (atoi_digits r Z0) sign)
+                        | _ ->
+                          let sign = Zpos XH in
+                          if is_inf s0
+                          then sw (Zpos (XO (XO (XO (XO (XO (XO XH)))))))
+                                 (Z.mul
+                                   (Z.sub
+                                     (Z.pow (Zpos (XO XH)) (Zpos (XI (XI (XI
+                                       (XI (XI XH))))))) (Zpos XH)) sign)
+                          else sw (Zpos (XO (XO (XO (XO (XO (XO XH)))))))
+                                 (Z.mul (atoi_digits s0 Z0) sign))
+                     | _ ->
+                       let sign = Zpos XH in
+                       if is_inf s0
+                       then sw (Zpos (XO (XO (XO (XO (XO (XO XH)))))))
+                              (Z.mul
+                                (Z.sub
+                                  (Z.pow (Zpos (XO XH)) (Zpos (XI (XI (XI (XI
+                                    (XI XH))))))) (Zpos XH)) sign)
+                       else sw (Zpos (XO (XO (XO (XO (XO (XO XH)))))))
+                              (Z.mul (atoi_digits s0 Z0) sign))
+                  | _ ->
+                    let sign = Zpos XH in
+                    if is_inf s0
+                    then sw (Zpos (XO (XO (XO (XO (XO (XO XH)))))))
+                           (Z.mul
+                             (Z.sub
+                               (Z.pow (Zpos (XO XH)) (Zpos (XI (XI (XI (XI
+                                 (XI XH))))))) (Zpos XH)) sign)
+                    else sw (Zpos (XO (XO (XO (XO (XO (XO XH)))))))
+                           (Z.mul (atoi_digits s0 Z0) sign))
+               | _ ->
+                 let sign = Zpos XH in
+                 if is_inf s0
+                 then sw (Zpos (XO (XO (XO (XO (XO (XO XH)))))))
+                        (Z.mul
+                          (Z.sub
+                            (Z.pow (Zpos (XO XH)) (Zpos (XI (XI (XI (XI (XI
+                              XH))))))) (Zpos XH)) sign)
+                 else sw (Zpos (XO (XO (XO (XO (XO (XO XH)))))))
+                        (Z.mul (atoi_digits s0 Z0) sign))
+            | XO p1 ->
+              (match p1 with
+               | XI p2 ->
+                 (match p2 with
+                  | XI p3 ->
+                    (match p3 with
+                     | XO p4 ->
+                       (match p4 with
+                        | XH ->
+                          let sign = Zneg XH in
+                          if is_inf r
+                          then sw (Zpos (XO (XO (XO (XO (XO (XO XH)))))))
+                                 (Z.mul
+                                   (Z.sub
+                                     (Z.pow (Zpos (XO XH)) (Zpos (XI (XI (XI
+                                       (XI (XI XH))))))) (Zpos XH)) sign)
+                          else sw (Zpos (XO (XO (XO (XO (XO (XO XH)))))))
+                                 (Z.mul (atoi_digits r Z0) sign)
+                        | _ ->
+                          let sign = Zpos XH in
+                          if is_inf s0
+                          then sw (Zpos (XO (XO (XO (XO (XO (XO XH)))))))
+                                 (Z.mul
+                                   (Z.sub
+                                     (Z.pow (Zpos (XO XH)) (Zpos (XI (XI (XI
+                                       (XI (XI XH))))))) (Zpos XH)) sign)
+                          else sw (Zpos (XO (XO (XO (XO (XO (XO XH)))))))
+                                 (Z.mul (atoi_digits s0 Z0) sign))
+                     | _ ->
+                       let sign = Zpos XH in
+                       if is_inf s0
+                       then sw (Zpos (XO (XO (XO (XO (XO (XO XH)))))))
+                              (Z.mul
+                                (Z.sub
+                                  (Z.pow (Zpos (XO XH)) (Zpos (XI (XI (XI (XI
+                                    (XI XH))))))) (Zpos XH)) sign)
+                       else sw (Zpos (XO (XO (XO (XO (XO (XO XH)))))))
+                              (Z.mul (atoi_digits s0 Z0) sign))
+                  | _ ->
+                    let sign = Zpos XH in
+                    if is_inf s0
+                    then sw (Zpos (XO (XO (XO (XO (XO (XO XH)))))))
+                           (Z.mul
+                             (Z.sub
+                               (Z.pow (Zpos (XO XH)) (Zpos (XI (XI (XI (XI
+                                 (XI XH))))))) (Zpos XH)) sign)
+                    else sw (Zpos (XO (XO (XO (XO (XO (XO XH)))))))
+                           (Z.mul (atoi_digits s0 Z0) sign))
+               | _ ->
+                 let sign = Zpos XH in
+                 if is_inf s0
+                 then sw (Zpos (XO (XO (XO (XO (XO (XO XH)))))))
+                        (Z.mul
+                          (Z.sub
+                            (Z.pow (Zpos (XO XH)) (Zpos (XI (XI (XI (XI (XI
+                              XH))))))) (Zpos XH)) sign)
+                 else sw (Zpos (XO (XO (XO (XO (XO (XO XH)))))))
+                        (Z.mul (atoi_digits s0 Z0) sign))
+            | XH ->
+              let sign = Zpos XH in
+              if is_inf s0
+              then sw (Zpos (XO (XO (XO (XO (XO (XO XH)))))))
+                     (Z.mul
+                       (Z.sub
+                         (Z.pow (Zpos (XO XH)) (Zpos (XI (XI (XI (XI (XI
+                           XH))))))) (Zpos XH)) sign)
+              else sw (Zpos (XO (XO (XO (XO (XO (XO XH)))))))
+                     (Z.mul (atoi_digits s0 Z0) sign))
+         | _ ->
+           let sign = Zpos XH in
+           if is_inf s0
+           then sw (Zpos (XO (XO (XO (XO (XO (XO XH)))))))
+                  (Z.mul
+                    (Z.sub
+                      (Z.pow (Zpos (XO XH)) (Zpos (XI (XI (XI (XI (XI
+                        XH))))))) (Zpos XH)) sign)
+           else sw (Zpos (XO (XO (XO (XO (XO (XO XH)))))))
+                  (Z.mul (atoi_digits s0 Z0) sign))
+      | _ ->
+        let sign = Zpos XH in
+        if is_inf s0
+        then sw (Zpos (XO (XO (XO (XO (XO (XO XH)))))))
+               (Z.mul
+                 (Z.sub
+                   (Z.pow (Zpos (XO XH)) (Zpos (XI (XI (XI (XI (XI XH)))))))
+                   (Zpos XH)) sign)
+        else sw (Zpos (XO (XO (XO (XO (XO (XO XH)))))))
+               (Z.mul (atoi_digits s0 Z0) sign)))
+
+(** val hexdigit : z -> z **)
+
+let hexdigit c =
+  uw (Zpos (XO (XO (XO XH))))
+    (Z.add (Z.add (Zpos (XI (XI (XI (XO (XI (XO XH))))))) c)
+      (Z.coq_land
+        (Z.shiftr
+          (uw (Zpos (XO (XO (XO (XO (XO XH))))))
+            (Z.sub c (Zpos (XO (XI (XO XH)))))) (Zpos (XO (XO (XO XH)))))
+        (uw (Zpos (XO (XO (XO (XO (XO XH))))))
+          (Z.lnot (Zpos (XO (XI (XI (XO (XO XH))))))))))
+
+(** val bin2hex : z list -> z list **)
+
+let rec bin2hex = function
+| [] -> []
+| b :: r ->
+  (hexdigit (Z.shiftr b (Zpos (XO (XO XH))))) :: ((hexdigit
+                                                    (Z.coq_land b (Zpos (XI
+                                                      (XI (XI XH)))))) :: 
+    (bin2hex r))
+
+(** val a2h : z -> z **)
+
+let a2h c =
+  nth (Z.to_nat c) ascii2hex_tbl Z0
+
+(** val hex2bin_even : z list -> z list **)
+
+let rec hex2bin_even = function
+| [] -> []
+| a :: l ->
+  (match l with
+   | [] -> []
+   | b :: r ->
+     (uw (Zpos (XO (XO (XO XH))))
+       (Z.coq_lor
+         (uw (Zpos (XO (XO (XO XH)))) (Z.shiftl (a2h a) (Zpos (XO (XO XH)))))
+         (a2h b))) :: (hex2bin_even r))
+
+(** val hex2bin : z list -> z list **)
+
+let hex2bin hex =
+  if Z.odd (Z.of_nat (length hex))
+  then hex2bin_even ((Zpos (XO (XO (XO (XO (XI XH)))))) :: hex)
+  else hex2bin_even hex
+
+type kmode = { km_vnum : bool; km_real : bool; km_compound : bool }
+
+(** val cmp2 : z list -> z list -> z **)
+
+let rec cmp2 a b =
+  match a with
+  | [] -> Z0
+  | x :: a' ->
+    (match b with
+     | [] -> Z0
+     | y :: b' -> if Z.eqb x y then cmp2 a' b' else Z.sub x y)
+
+(** val sgn3 : z -> z -> z **)
+
+let sgn3 n1 n2 =
+  if Z.gtb n1 n2 then Zneg XH else if Z.ltb n1 n2 then Zpos XH else Z0
+
+(** val read_vnum2 : z list -> z **)
+
+let read_vnum2 b =
+  match read_vnum b with
+  | Some p -> let (n0, _) = p in n0
+  | None -> Z0
+
+(** val strncmp : nat -> z list -> z list -> z **)
+
+let rec strncmp n0 a b =
+  match n0 with
+  | O -> Z0
+  | S k ->
+    let x = hd Z0 a in
+    let y = hd Z0 b in
+    if Z.eqb x y
+    then if Z.eqb x Z0 then Z0 else strncmp k (tl a) (tl b)
+    else Z.sub x y
+
+(** val memcmp : nat -> z list -> z list -> z **)
+
+let memcmp n0 a b =
+  cmp2 (firstn n0 a) (firstn n0 b)
+
+(** val af_skip : z list -> z list **)
+
+let rec af_skip s = match s with
+| [] -> []
+| c :: r ->
+  if (||) (Z.leb c (Zpos (XO (XO (XO (XO (XO XH)))))))
+       (Z.eqb c (Zpos (XI (XI (XI (XI (XI (XI XH))))))))
+  then af_skip r
+  else s
+
+(** val af_int : z list -> z -> z * z list **)
+
+let rec af_int s acc =
+  match s with
+  | [] -> (acc, [])
+  | c :: r ->
+    if (||) (Z.ltb c (Zpos (XO (XO (XO (XO (XI XH)))))))
+         (Z.gtb c (Zpos (XI (XO (XO (XI (XI XH)))))))
+    then (acc, s)
+    else af_int r
+           (sw (Zpos (XO (XO (XO (XO (XO (XO XH)))))))
+             (Z.sub (Z.add (Z.mul acc (Zpos (XO (XI (XO XH))))) c) (Zpos (XO
+               (XO (XO (XO (XI XH))))))))
+
+(** val af_frac : z list -> nat -> z -> z -> z * z **)
+
+let rec af_frac s lim num k =
+  match lim with
+  | O -> (num, k)
+  | S l ->
+    (match s with
+     | [] -> (num, k)
+     | c :: r ->
+       if (||) (Z.ltb c (Zpos (XO (XO (XO (XO (XI XH)))))))
+            (Z.gtb c (Zpos (XI (XO (XO (XI (XI XH)))))))
+       then (num, k)
+       else af_frac r l
+              (Z.add (Z.mul num (Zpos (XO (XI (XO XH)))))
+                (Z.sub c (Zpos (XO (XO (XO (XO (XI XH))))))))
+              (Z.add k (Zpos XH)))
+
+(** val af_part : z list -> (z * z) * z list **)
+
+let af_part s =
+  let s0 = af_skip s in
+  (match s0 with
+   | [] ->
+     let sign = Zpos XH in
+     let (n0, rest) = af_int s0 Z0 in
+     ((sign, (sw (Zpos (XO (XO (XO (XO (XO (XO XH))))))) (Z.mul n0 sign))),
+     rest)
+   | z0 :: r ->
+     (match z0 with
+      | Zpos p ->
+        (match p with
+         | XI p0 ->
+           (match p0 with
+            | XO p1 ->
+              (match p1 with
+               | XI p2 ->
+                 (match p2 with
+                  | XI p3 ->
+                    (match p3 with
+                     | XO p4 ->
+                       (match p4 with
+                        | XH ->
+                          let sign = Zneg XH in
+                          let (n0, rest) = af_int r Z0 in
+                          ((sign,
+                          (sw (Zpos (XO (XO (XO (XO (XO (XO XH)))))))
+                            (Z.mul n0 sign))), rest)
+                        | _ ->
+                          let sign = Zpos XH in
+                          let (n0, rest) = af_int s0 Z0 in
+                          ((sign,
+                          (sw (Zpos (XO (XO (XO (XO (XO (XO XH)))))))
+                            (Z.mul n0 sign))), rest))
+                     | _ ->
+                       let sign = Zpos XH in
+                       let (n0, rest) = af_int s0 Z0 in
+                       ((sign,
+                       (sw (Zpos (XO (XO (XO (XO (XO (XO XH)))))))
+                         (Z.mul n0 sign))), rest))
+                  | _ ->
+                    let sign = Zpos XH in
+                    let (n0, rest) = af_int s0 Z0 in
+                    ((sign,
+                    (sw (Zpos (XO (XO (XO (XO (XO (XO XH)))))))
+                      (Z.mul n0 sign))), rest))
+               | _ ->
+                 let sign = Zpos XH in
+                 let (n0, rest) = af_int s0 Z0 in
+                 ((sign,
+                 (sw (Zpos (XO (XO (XO (XO (XO (XO XH))))))) (Z.mul n0 sign))),
+                 rest))
+            | _ ->
+              let sign = Zpos XH in
+              let (n0, rest) = af_int s0 Z0 in
+              ((sign,
+              (sw (Zpos (XO (XO (XO (XO (XO (XO XH))))))) (Z.mul n0 sign))),
+              rest))
+         | _ ->
+           let sign = Zpos XH in
+           let (n0, rest) = af_int s0 Z0 in
+           ((sign,
+           (sw (Zpos (XO (XO (XO (XO (XO (XO XH))))))) (Z.mul n0 sign))),
+           rest))
+      | _ ->
+        let sign = Zpos XH in
+        let (n0, rest) = af_int s0 Z0 in
+        ((sign,
+        (sw (Zpos (XO (XO (XO (XO (XO (XO XH))))))) (Z.mul n0 sign))), rest)))
+
+(** val af_hasfrac : z list -> bool **)
+
+let af_hasfrac = function
 | [] -> false
 | z0 :: l ->
   (match z0 with
@@ -1911,15 +1655,15 @@ let star = function
         (match p0 with
          | XI p1 ->
            (match p1 with
-            | XO p2 ->
+            | XI p2 ->
               (match p2 with
                | XI p3 ->
                  (match p3 with
                   | XO p4 ->
                     (match p4 with
                      | XH -> (match l with
-                              | [] -> true
-                              | _ :: _ -> false)
+                              | [] -> false
+                              | _ :: _ -> true)
                      | _ -> false)
                   | _ -> false)
                | _ -> false)
@@ -1928,355 +1672,130 @@ let star = function
       | _ -> false)
    | _ -> false)
 
-(** val seg_at : z list list -> z -> z list **)
+(** val af_fracval : z -> z list -> z * z **)
 
-let seg_at ptr lvl =
-  nth (Z.to_nat lvl) ptr []
+let af_fracval sign rest =
+  if af_hasfrac rest
+  then let (n0, k) = af_frac (tl rest) (Z.to_nat iWNUMBUF_SIZE) Z0 Z0 in
+       ((Z.mul n0 sign), k)
+  else (Z0, Z0)
 
-(** val strncmp_eq : z list -> z list -> z -> bool **)
+(** val afcmp : (nat -> z list -> z list -> z) -> z list -> z list -> z **)
 
-let strncmp_eq a b n0 =
-  bytes_eqb (zfirst n0 (cstr a)) (zfirst n0 (cstr b))
+let afcmp tie a b =
+  let (p, arest) = af_part a in
+  let (asign, anum) = p in
+  let (p0, brest) = af_part b in
+  let (bsign, bnum) = p0 in
+  if Z.ltb anum bnum
+  then Zneg XH
+  else if Z.gtb anum bnum
+       then Zpos XH
+       else let (an, ak) = af_fracval asign arest in
+            let (bn, bk) = af_fracval bsign brest in
+            let l = Z.mul an (Z.pow (Zpos (XO (XI (XO XH)))) bk) in
+            let r = Z.mul bn (Z.pow (Zpos (XO (XI (XO XH)))) ak) in
+            if (&&) ((||) (af_hasfrac arest) (af_hasfrac brest)) (Z.ltb l r)
+            then Zneg XH
+            else if (&&) ((||) (af_hasfrac arest) (af_hasfrac brest))
+                      (Z.gtb l r)
+                 then Zpos XH
+                 else let rv = tie (Nat.min (length a) (length b)) a b in
+                      if Z.eqb rv Z0
+                      then Z.sub (Z.of_nat (length a)) (Z.of_nat (length b))
+                      else rv
 
-(** val upd_jbl : z list list -> z -> z -> z list option -> z -> z * bool **)
+(** val vnum_cmp : z list -> z list -> z **)
 
-let upd_jbl ptr pos lvl key idx =
-  let cnt = zlen ptr in
-  if Z.ltb lvl cnt
-  then let pos1 = if Z.geb pos lvl then Z.sub lvl (Zpos XH) else pos in
-       if Z.eqb (Z.add pos1 (Zpos XH)) lvl
-       then let keyptr = match key with
-                         | Some k -> cstr k
-                         | None -> itoa idx in
-            let seg = seg_at ptr lvl in
-            if (||) (bytes_eqb keyptr seg) (star seg)
-            then (lvl, (Z.eqb cnt (Z.add lvl (Zpos XH))))
-            else (pos1, false)
-       else (pos1, false)
-  else (pos, false)
+let vnum_cmp v1 v2 =
+  let l1 = Z.of_nat (length v1) in
+  let l2 = Z.of_nat (length v2) in
+  if (||) ((||) (negb (Z.eqb l2 l1)) (Z.gtb l2 iW_VNUMBUFSZ))
+       (Z.gtb l1 iW_VNUMBUFSZ)
+  then Z.sub l2 l1
+  else sgn3 (read_vnum2 v1) (read_vnum2 v2)
 
-(** val upd_jbn : z list list -> z -> z -> z list option -> z -> z * bool **)
+(** val cmp_keys_prefix :
+    (nat -> z list -> z list -> z) -> kmode -> z list -> z list -> z -> z **)
 
-let upd_jbn ptr pos lvl key idx =
-  let cnt = zlen ptr in
-  if Z.ltb lvl cnt
-  then let pos1 = if Z.geb pos lvl then Z.sub lvl (Zpos XH) else pos in
-       if Z.eqb (Z.add pos1 (Zpos XH)) lvl
-       then let keyptr = match key with
-                         | Some k -> k
-                         | None -> itoa idx in
-            let idx' = match key with
-                       | Some _ -> idx
-                       | None -> zlen (itoa idx)
-            in
-            let seg = seg_at ptr lvl in
-            let jplen = zlen seg in
-            if (||) ((&&) (Z.eqb idx' jplen) (strncmp_eq keyptr seg idx'))
-                 (star seg)
-            then (lvl, (Z.eqb cnt (Z.add lvl (Zpos XH))))
-            else (pos1, false)
-       else (pos1, false)
-  else (pos, false)
+let cmp_keys_prefix tie m v1 kdata kcomp =
+  if m.km_compound
+  then (match read_vnum v1 with
+        | Some p ->
+          let (c1, step) = p in
+          let u1 = skipn step v1 in
+          let v1len = Z.sub (Z.of_nat (length v1)) (Z.of_nat step) in
+          let v2len = Z.of_nat (length kdata) in
+          if Z.ltb v1len (Zpos XH)
+          then Z.sub v2len v1len
+          else if m.km_vnum
+               then let r = vnum_cmp u1 kdata in
+                    if (||)
+                         ((||) (negb (Z.eqb v2len v1len))
+                           (Z.gtb v2len iW_VNUMBUFSZ))
+                         (Z.gtb v1len iW_VNUMBUFSZ)
+                    then r
+                    else if Z.eqb r Z0 then sgn3 c1 kcomp else r
+               else if m.km_real
+                    then let r = afcmp tie kdata u1 in
+                         if Z.eqb r Z0 then sgn3 c1 kcomp else r
+                    else cmp2 kdata u1
+        | None -> Z0)
+  else if m.km_vnum
+       then vnum_cmp v1 kdata
+       else if m.km_real then afcmp tie kdata v1 else cmp2 kdata v1
 
-type 'n kres =
-| KNot
-| KErr of z
-| KSome of ((z list option * z) * 'n) list
+(** val cmp_keys :
+    (nat -> z list -> z list -> z) -> kmode -> z list -> z list -> z -> z **)
 
-(** val e_INVALID : z **)
+let cmp_keys tie m v1 kdata kcomp =
+  let rv = cmp_keys_prefix tie m v1 kdata kcomp in
+  if (&&) (Z.eqb rv Z0) (negb ((||) m.km_vnum m.km_real))
+  then if m.km_compound
+       then (match read_vnum v1 with
+             | Some p ->
+               let (c1, step) = p in
+               let v1len = Z.sub (Z.of_nat (length v1)) (Z.of_nat step) in
+               if Z.eqb (Z.of_nat (length kdata)) v1len
+               then sgn3 c1 kcomp
+               else Z.sub (Z.of_nat (length kdata)) v1len
+             | None -> Z0)
+       else Z.sub (Z.of_nat (length kdata)) (Z.of_nat (length v1))
+  else rv
 
-let e_INVALID =
-  Zpos XH
+(** val stored : kmode -> z list -> z -> z list **)
 
-(** val e_NESTING : z **)
+let stored m kdata kcomp =
+  if m.km_compound then app (set_vnum64 kcomp) kdata else kdata
 
-let e_NESTING =
-  Zpos (XO XH)
+(** val kcmp :
+    (nat -> z list -> z list -> z) -> kmode -> (z list * z) -> (z list * z)
+    -> z **)
 
-(** val e_FUEL : z **)
+let kcmp tie m a b =
+  cmp_keys tie m (stored m (fst a) (snd a)) (fst b) (snd b)
 
-let e_FUEL =
-  Zpos (XI XH)
+(** val sblk_cmp_key :
+    (nat -> z list -> z list -> z) -> kmode -> z list -> bool -> z list -> z
+    -> z option **)
 
-(** val e_DECODE : z **)
-
-let e_DECODE =
-  Zpos (XO (XO XH))
-
-type 'n vst = { v_pos : z; v_res : 'n option; v_term : bool }
-
-type 'n vr =
-| VErr of z
-| VOk of 'n vst
-
-(** val visit :
-    ('a1 -> 'a1 kres) -> (z list list -> z -> z -> z list option -> z ->
-    z * bool) -> bool -> z list list -> nat -> z -> ((z list
-    option * z) * 'a1) list -> 'a1 vst -> 'a1 vr **)
-
-let rec visit kids upd enter_after_terminate ptr fuel lvl cs st =
-  match fuel with
-  | O -> VErr e_FUEL
-  | S f ->
-    let rec loop cs0 st0 =
-      match cs0 with
-      | [] -> VOk st0
-      | p :: rest ->
-        let (p0, n0) = p in
-        let (key, idx) = p0 in
-        if st0.v_term
-        then VOk st0
-        else let (pos', matched) = upd ptr st0.v_pos lvl key idx in
-             let st1 =
-               if matched
-               then { v_pos = pos'; v_res = (Some n0); v_term = true }
-               else { v_pos = pos'; v_res = st0.v_res; v_term = false }
-             in
-             let skip =
-               (&&) (negb matched) (Z.ltb (zlen ptr) (Z.add lvl (Zpos XH)))
-             in
-             if (&&) matched (negb enter_after_terminate)
-             then VOk st1
-             else if skip
-                  then loop rest st1
-                  else (match kids n0 with
-                        | KNot -> loop rest st1
-                        | KErr e -> VErr e
-                        | KSome cs' ->
-                          if Z.gtb (Z.add lvl (Zpos XH))
-                               jbinn_JBL_MAX_NESTING_LEVEL
-                          then VErr e_NESTING
-                          else (match visit kids upd enter_after_terminate
-                                        ptr f (Z.add lvl (Zpos XH)) cs' st1 with
-                                | VErr e -> VErr e
-                                | VOk st2 -> loop rest st2))
-    in loop cs st
-
-type 'n at_res =
-| AtFound of 'n
-| AtNotFound
-| AtPtrErr
-| AtPtrUndef
-| AtErr of z
-
-(** val at_fuel : z list list -> nat **)
-
-let at_fuel ptr =
-  S (S (length ptr))
-
-(** val number : z -> 'a1 list -> ((z list option * z) * 'a1) list **)
-
-let rec number i = function
-| [] -> []
-| x :: r -> ((None, i), x) :: (number (Z.add i (Zpos XH)) r)
-
-(** val kids_j : jval -> jval kres **)
-
-let kids_j = function
-| JArr items -> KSome (number Z0 items)
-| JObj ms ->
-  KSome (map (fun m -> (((Some (fst m)), (zlen (fst m))), (snd m))) ms)
-| _ -> KNot
-
-(** val at_tree2 : jval -> z list list -> jval at_res **)
-
-let at_tree2 v ptr = match ptr with
-| [] -> AtFound v
-| _ :: _ ->
-  (match kids_j v with
-   | KSome cs ->
-     (match visit kids_j upd_jbn true ptr (at_fuel ptr) Z0 cs { v_pos = (Zneg
-              XH); v_res = None; v_term = false } with
-      | VErr e -> AtErr e
-      | VOk st ->
-        (match st.v_res with
-         | Some r -> AtFound r
-         | None -> AtNotFound))
-   | _ -> AtNotFound)
-
-(** val at_tree : jval -> z list -> jval at_res **)
-
-let at_tree v path =
-  match ptr_parse3 path with
-  | PErr -> AtPtrErr
-  | PUndef -> AtPtrUndef
-  | POk ptr -> at_tree2 v ptr
-
-(** val kids_b : bval -> bval kres **)
-
-let kids_b b =
-  if Z.eqb b.bt jbinn_BINN_OBJECT
-  then (match iter_init b.bptr jbinn_BINN_OBJECT with
-        | Some it ->
-          KSome
-            (map (fun m -> (((Some (fst m)), (Zneg XH)), (snd m)))
-              (obj_items (iter_fuel it) it))
-        | None -> KErr e_INVALID)
-  else if Z.eqb b.bt jbinn_BINN_LIST
-       then (match iter_init b.bptr jbinn_BINN_LIST with
-             | Some it -> KSome (number Z0 (list_items (iter_fuel it) it))
-             | None -> KErr e_INVALID)
-       else if Z.eqb b.bt jbinn_BINN_MAP then KErr e_DECODE else KNot
-
-(** val at_bval2 : bval -> z list list -> bval at_res **)
-
-let at_bval2 b ptr = match ptr with
-| [] -> AtFound b
-| _ :: _ ->
-  (match kids_b b with
-   | KNot -> AtErr e_INVALID
-   | KErr e -> AtErr e
-   | KSome cs ->
-     (match visit kids_b upd_jbl false ptr (at_fuel ptr) Z0 cs { v_pos =
-              (Zneg XH); v_res = None; v_term = false } with
-      | VErr e -> AtErr e
-      | VOk st ->
-        (match st.v_res with
-         | Some r -> AtFound r
-         | None -> AtNotFound)))
-
-(** val at_binn2 : z list -> z list list -> jval at_res **)
-
-let at_binn2 bs ptr =
-  match root_bval bs with
-  | Some b ->
-    (match at_bval2 b ptr with
-     | AtFound r ->
-       (match dec_node (S (length bs)) r with
-        | Some v -> AtFound v
-        | None -> AtErr e_DECODE)
-     | AtNotFound -> AtNotFound
-     | AtPtrErr -> AtPtrErr
-     | AtPtrUndef -> AtPtrUndef
-     | AtErr e -> AtErr e)
-  | None -> AtErr e_INVALID
-
-(** val at_binn : z list -> z list -> jval at_res **)
-
-let at_binn bs path =
-  match ptr_parse3 path with
-  | PErr -> AtPtrErr
-  | PUndef -> AtPtrUndef
-  | POk ptr -> at_binn2 bs ptr
-
-type cframe = { f_key : z list option; f_obj : bool;
-                f_kids : (z list option * jval) list }
-
-type cst = { c_stack : cframe list; c_pend : (z list option * bool) option;
-             c_pos : z }
-
-(** val frame_val : cframe -> jval **)
-
-let frame_val f =
-  if f.f_obj
-  then JObj
-         (map (fun c -> ((match fst c with
-                          | Some k -> k
-                          | None -> []), (snd c))) (rev f.f_kids))
-  else JArr (map snd (rev f.f_kids))
-
-(** val add_kid : (z list option * jval) -> cframe list -> cframe list **)
-
-let add_kid c = function
-| [] -> []
-| f :: r ->
-  { f_key = f.f_key; f_obj = f.f_obj; f_kids = (c :: f.f_kids) } :: r
-
-(** val flush : cst -> cst **)
-
-let flush s =
-  match s.c_pend with
-  | Some p ->
-    let (k, o) = p in
-    { c_stack = (add_kid (k, (if o then JObj [] else JArr [])) s.c_stack);
-    c_pend = None; c_pos = s.c_pos }
-  | None -> s
-
-(** val pop1 : cframe list -> cframe list **)
-
-let pop1 = function
-| [] -> []
-| f :: r -> add_kid (f.f_key, (frame_val f)) r
-
-(** val popn : nat -> cframe list -> cframe list **)
-
-let rec popn n0 st =
-  match n0 with
-  | O -> st
-  | S k -> popn k (pop1 st)
-
-(** val clone_visit : z -> z list option -> jval -> cst -> cst **)
-
-let clone_visit lvl key n0 s =
-  let s1 =
-    if Z.ltb lvl s.c_pos
-    then let s0 = flush s in
-         { c_stack = (popn (Z.to_nat (Z.sub s.c_pos lvl)) s0.c_stack);
-         c_pend = None; c_pos = lvl }
-    else if Z.gtb lvl s.c_pos
-         then (match s.c_pend with
-               | Some p ->
-                 let (k, o) = p in
-                 { c_stack = ({ f_key = k; f_obj = o; f_kids =
-                 [] } :: s.c_stack); c_pend = None; c_pos = lvl }
-               | None -> { c_stack = s.c_stack; c_pend = None; c_pos = lvl })
-         else flush s
+let sblk_cmp_key tie m lk full kdata kcomp =
+  let ksize =
+    Z.add (Z.of_nat (length kdata))
+      (if m.km_compound then iW_VNUMSIZE kcomp else Z0)
   in
-  (match n0 with
-   | JArr _ ->
-     { c_stack = s1.c_stack; c_pend = (Some (key, false)); c_pos = s1.c_pos }
-   | JObj _ ->
-     { c_stack = s1.c_stack; c_pend = (Some (key, true)); c_pos = s1.c_pos }
-   | _ ->
-     { c_stack = (add_kid (key, n0) s1.c_stack); c_pend = None; c_pos =
-       s1.c_pos })
+  if (||) ((||) ((||) full (Z.ltb ksize (Z.of_nat (length lk)))) m.km_vnum)
+       m.km_real
+  then Some (cmp_keys tie m lk kdata kcomp)
+  else let r = cmp_keys_prefix tie m lk kdata kcomp in
+       if Z.eqb r Z0 then None else Some r
 
-(** val clone_walk : z -> jval -> cst -> cst **)
+(** val sblk_cmp_key_full :
+    (nat -> z list -> z list -> z) -> kmode -> z list -> z list -> z -> z **)
 
-let rec clone_walk lvl v s =
-  match v with
-  | JArr items ->
-    let rec loop l s0 =
-      match l with
-      | [] -> s0
-      | x :: r ->
-        loop r
-          (clone_walk (Z.add lvl (Zpos XH)) x (clone_visit lvl None x s0))
-    in loop items s
-  | JObj ms ->
-    let rec loop l s0 =
-      match l with
-      | [] -> s0
-      | p :: r ->
-        let (k, x) = p in
-        loop r
-          (clone_walk (Z.add lvl (Zpos XH)) x (clone_visit lvl (Some k) x s0))
-    in loop ms s
-  | _ -> s
-
-(** val jbn_clone : jval -> jval **)
-
-let jbn_clone v = match v with
-| JArr _ ->
-  let s =
-    flush
-      (clone_walk Z0 v { c_stack = ({ f_key = None; f_obj =
-        (match v with
-         | JObj _ -> true
-         | _ -> false); f_kids = [] } :: []); c_pend = None; c_pos = Z0 })
-  in
-  (match popn (Z.to_nat s.c_pos) s.c_stack with
-   | [] -> JNull
-   | f :: _ -> frame_val f)
-| JObj _ ->
-  let s =
-    flush
-      (clone_walk Z0 v { c_stack = ({ f_key = None; f_obj =
-        (match v with
-         | JObj _ -> true
-         | _ -> false); f_kids = [] } :: []); c_pend = None; c_pos = Z0 })
-  in
-  (match popn (Z.to_nat s.c_pos) s.c_stack with
-   | [] -> JNull
-   | f :: _ -> frame_val f)
-| _ -> v
+let sblk_cmp_key_full tie m skey kdata kcomp =
+  let lk = firstn (Z.to_nat pREFIX_KEY_LEN_V2) skey in
+  let full = Z.leb (Z.of_nat (length skey)) pREFIX_KEY_LEN_V2 in
+  (match sblk_cmp_key tie m lk full kdata kcomp with
+   | Some r -> r
+   | None -> cmp_keys tie m skey kdata kcomp)
